@@ -1,21 +1,25 @@
 (* Proofs about Model/UnusedVar.v (property C15).
 
-   Part 1  the analyser as a function of the map alone (emit / emits), segments
-   Part 2  decomposition of a file's report into per-method reports (WFtop)
-   Part 3  exact characterisation of one method's warnings (guard-free: unused_exact_events), then
-           the tree-level specification (mentions / unused_spec) under the per-method guards (WFmeth)
-   Part 4  placement, renaming (both guard-free)
-   Part 5  boolean checkers of the guards with soundness; guard_flags
-   Part 6  unused_spec_ext: the property read on the source text (for refutation witnesses only)
-   All statements are generic in the key function keyf (the code since /repo e5fd419: key_today =
-   upper); the exactness theorem needs keyf to identify exactly the case variants (key_ci).
-   History: before e5fd419 / 993bb42 the map was keyed by the spelling and string-literal terminals
-   were counted; the two guards that excluded those classes (G_case, G_lit) are gone. *)
+   Part 1  the tree, association lists
+   Part 2  what one method's analysis produces, exactly (method_report_eq), and a file's report is the
+           concatenation of its method nodes' reports (report_decomposes): no hypothesis
+   Part 3  the specification: the property read on the tree (stmts / locals / mentions / method_spec /
+           unused_spec) and exactness: unused_vars keyf file = unused_spec file for EVERY tree and every key
+           function that identifies exactly the case variants of a name (key_ci); the declarative reading of
+           `mentions` (MentionsIn)
+   Part 4  corollaries: per-method independence (permuting the top-level declarations, a method alone),
+           placement, renaming
+   Part 5  the one structural fact about parsed trees that is used to READ the statements (not to prove
+           them): method nodes are children of the root (top_flat), then all_methods = methods
+   All statements are generic in the key function keyf (the code: key_today = upper).
+   History: until the repair of tools/c15_proposed_fix.diff the analyser filled and read one map while
+   the walker advanced; the statement then needed the guards WFtop / G_flat / G_dup / G_order / G_pos and
+   was false without them in five ways (Properties/C15.v, C15_old_*_refuted, on Model.analyze_old). *)
 From Coq Require Import Permutation.
 From GoldV Require Import Base Tokens Lexer AstKinds Tree UnusedVar.
 
 (* ------------------------------------------------------------------------------------------ *)
-(* induction over trees                                                                       *)
+(* Part 1: induction over trees, the walker, the nodes of a subtree                           *)
 (* ------------------------------------------------------------------------------------------ *)
 
 Definition node_ind' (P : node -> Prop)
@@ -42,132 +46,36 @@ Proof. destruct n as [k i r rg a ch]. cbn [walk nchildren]. f_equal. apply walk_
 Lemma walk_list_app p l1 l2 : walk_list p (l1 ++ l2) = walk_list p l1 ++ walk_list p l2.
 Proof. induction l1 as [|c l1 IH]; cbn [walk_list app]; [reflexivity|]. rewrite IH, app_assoc. reflexivity. Qed.
 
-(* ------------------------------------------------------------------------------------------ *)
-(* Part 1: classification of visited nodes; the analyser as a function of the map             *)
-(* ------------------------------------------------------------------------------------------ *)
+Lemma subnodes_go_eq l :
+  (fix go (l : list node) {struct l} : list node :=
+     match l with [] => [] | c :: l' => subnodes c ++ go l' end) l = flat_map subnodes l.
+Proof. induction l as [|c l IH]; [reflexivity|]. cbn [flat_map]. rewrite <- IH. reflexivity. Qed.
 
-Definition is_method (n : node) : bool := is_kind KAstProcedure n || is_kind KAstFunction n.
+Lemma subnodes_eq n : subnodes n = n :: flat_map subnodes (nchildren n).
+Proof. destruct n as [k i r rg a ch]. cbn [subnodes nchildren]. rewrite subnodes_go_eq. reflexivity. Qed.
+
+(* the nodes the walker visits below n are the nodes of n, whatever the parent *)
+Lemma walk_nodes n : forall p, map ev_node (walk p n) = subnodes n.
+Proof.
+  induction n as [k id r rg a ch IH] using node_ind'. intro p.
+  rewrite walk_eq, subnodes_eq. cbn [map ev_node snd nchildren]. f_equal.
+  generalize (Node k id r rg a ch). intro q.
+  induction IH as [|c l Hc _ IHl]; [reflexivity|]. cbn [walk_list flat_map]. rewrite map_app, Hc, IHl. reflexivity.
+Qed.
+
+Lemma walk_list_nodes p l : map ev_node (walk_list p l) = flat_map subnodes l.
+Proof. induction l as [|c l IH]; [reflexivity|]. cbn [walk_list flat_map]. rewrite map_app, walk_nodes, IH. reflexivity. Qed.
+
+Lemma events_nodes file : map ev_node (events file) = flat_map subnodes (nchildren file).
+Proof. apply walk_list_nodes. Qed.
+
 Definition is_term (n : node) : bool := is_kind KAstTerminal n.
 Definition is_lvar (n : node) : bool := is_kind KAstLocalVariableDeclaration n.
-
-Definition e_method (e : ev) : bool := is_method (ev_node e).
-Definition e_term (e : ev) : bool := is_term (ev_node e).
-Definition e_lvar (e : ev) : bool := is_lvar (ev_node e).
-
-Inductive ecls := CMethod | CTerm | CLvar | COther.
-Definition classify (n : node) : ecls :=
-  if is_method n then CMethod else if is_term n then CTerm else if is_lvar n then CLvar else COther.
 
 Definition cmap := list (str * vinfo).
 
 (* a terminal that can name something: anything but a string literal *)
 Definition name_tok (n : node) : bool := negb (is_string_lit n).
-
-(* one visit as a function of the map: new map, diagnostics pushed *)
-Definition emit (keyf : str -> str) (c : cmap) (e : ev) : cmap * list diag :=
-  let p := ev_parent e in
-  let n := ev_node e in
-  match classify n with
-  | CMethod => ([], unused_of c)
-  | CTerm =>
-      if is_string_lit n then (c, []) else
-      let k := keyf (nident n) in
-      match alookup k c with
-      | Some v => if is_left_node p n then (ainsert k (mkV (vuses v + 1) (vrange v) (vname v)) c, []) else (c, [])
-      | None => (c, [])
-      end
-  | CLvar =>
-      let k := keyf (nident n) in
-      match alookup k c with
-      | Some _ => (c, [mkDiag SEV_ERROR CL_DUP (ident_range n) []])
-      | None => (ainsert k (mkV 0 (ident_range n) (nident n)) c, [])
-      end
-  | COther => (c, [])
-  end.
-
-Fixpoint emits (keyf : str -> str) (c : cmap) (l : list ev) : cmap * list diag :=
-  match l with
-  | [] => (c, [])
-  | e :: l' => let r1 := emit keyf c e in
-               let r2 := emits keyf (fst r1) l' in
-               (fst r2, snd r1 ++ snd r2)
-  end.
-
-Lemma step_emit keyf s e :
-  step keyf s e = mkSt (fst (emit keyf (cur s) e)) (diags s ++ snd (emit keyf (cur s) e)).
-Proof.
-  destruct s as [c d]. destruct e as [p n].
-  unfold step, emit, classify, is_method, is_term, is_lvar, is_kind, ev_node, ev_parent, reset, check_unused,
-    notify_terminal, notify_local_var.
-  cbn [fst snd cur diags].
-  destruct (nkind n); cbv [ak_eqb ak_idx N.eqb Pos.eqb orb]; cbn [cur diags];
-    repeat match goal with
-    | |- context [match alookup ?k ?c with _ => _ end] => destruct (alookup k c)
-    | |- context [if is_left_node ?p ?n then _ else _] => destruct (is_left_node p n)
-    | |- context [if is_string_lit ?n then _ else _] => destruct (is_string_lit n)
-    end; cbn [fst snd]; rewrite ?app_nil_r; reflexivity.
-Qed.
-
-Lemma fold_emits keyf l s :
-  fold_left (step keyf) l s = mkSt (fst (emits keyf (cur s) l)) (diags s ++ snd (emits keyf (cur s) l)).
-Proof.
-  revert s. induction l as [|e l IH]; intro s; cbn [fold_left emits fst snd].
-  - rewrite app_nil_r. destruct s; reflexivity.
-  - rewrite IH, step_emit. cbn [cur diags]. rewrite app_assoc. reflexivity.
-Qed.
-
-(* the report produced from map c by the visits l followed by notify_end *)
-Definition out (keyf : str -> str) (c : cmap) (l : list ev) : list diag :=
-  snd (emits keyf c l) ++ unused_of (fst (emits keyf c l)).
-
-Lemma analyze_out keyf file : analyze keyf file = out keyf [] (events file).
-Proof. unfold analyze, run, out, check_unused. rewrite fold_emits. reflexivity. Qed.
-
-Lemma emits_app keyf c l1 l2 :
-  emits keyf c (l1 ++ l2) =
-  (fst (emits keyf (fst (emits keyf c l1)) l2), snd (emits keyf c l1) ++ snd (emits keyf (fst (emits keyf c l1)) l2)).
-Proof.
-  revert c. induction l1 as [|e l1 IH]; intro c; cbn [emits app fst snd].
-  - destruct (emits keyf c l2); reflexivity.
-  - rewrite IH. cbn [fst snd]. rewrite app_assoc. reflexivity.
-Qed.
-
-Lemma out_app keyf c l1 l2 :
-  out keyf c (l1 ++ l2) = snd (emits keyf c l1) ++ out keyf (fst (emits keyf c l1)) l2.
-Proof. unfold out. rewrite emits_app. cbn [fst snd]. rewrite app_assoc. reflexivity. Qed.
-
-Lemma classify_method n : is_method n = true -> classify n = CMethod.
-Proof. unfold classify. intros ->. reflexivity. Qed.
-
-Lemma emit_method keyf c e : e_method e = true -> emit keyf c e = ([], unused_of c).
-Proof. unfold emit, e_method. intro H. rewrite (classify_method _ H). reflexivity. Qed.
-
-(* a method node flushes the map: what precedes it and what follows it are independent *)
-Lemma out_method keyf c e l : e_method e = true -> out keyf c (e :: l) = unused_of c ++ out keyf [] l.
-Proof. intro H. unfold out. cbn [emits]. rewrite (emit_method _ _ _ H). cbn [fst snd]. rewrite app_assoc. reflexivity. Qed.
-
-Lemma out_split keyf c l1 e l2 :
-  e_method e = true -> out keyf c (l1 ++ e :: l2) = out keyf c l1 ++ out keyf [] (e :: l2).
-Proof.
-  intro H. rewrite out_app, !(out_method _ _ _ _ H). cbn [unused_of flat_map app].
-  unfold out at 2. rewrite !app_assoc. reflexivity.
-Qed.
-
-(* ------------------------------------------------------------------------------------------ *)
-(* small facts about kinds and association lists                                              *)
-(* ------------------------------------------------------------------------------------------ *)
-
-Lemma classify_spec n :
-  match classify n with
-  | CMethod => is_method n = true
-  | CTerm => is_method n = false /\ is_term n = true
-  | CLvar => is_method n = false /\ is_term n = false /\ is_lvar n = true
-  | COther => is_method n = false /\ is_term n = false /\ is_lvar n = false
-  end.
-Proof.
-  unfold classify. destruct (is_method n); [reflexivity|].
-  destruct (is_term n); [split; reflexivity|]. destruct (is_lvar n); repeat split; reflexivity.
-Qed.
 
 Lemma kinds_exclusive n :
   (is_method n = true -> is_term n = false /\ is_lvar n = false) /\
@@ -178,18 +86,17 @@ Proof.
   destruct (nkind n); cbv [ak_eqb ak_idx N.eqb Pos.eqb orb]; repeat split; congruence.
 Qed.
 
-Lemma classify_term n : is_term n = true -> classify n = CTerm.
+(* a method body node is nothing the analyser looks at *)
+Lemma body_kind b :
+  is_kind KAstMethodBody b = true ->
+  is_lvar b = false /\ is_term b = false /\ is_kind KAstMethodCall b = false /\ is_kind KAstForBlock b = false /\
+  is_kind KAstBinaryOp b = false /\ is_kind KAstArrayAccess b = false.
 Proof.
-  intro H. unfold classify. destruct (proj1 (proj2 (kinds_exclusive n)) H) as [-> _]. rewrite H. reflexivity.
+  unfold is_term, is_lvar, is_kind.
+  destruct (nkind b); cbv [ak_eqb ak_idx N.eqb Pos.eqb]; intro H; repeat split; congruence.
 Qed.
 
-Lemma classify_lvar n : is_lvar n = true -> classify n = CLvar.
-Proof.
-  intro H. unfold classify. destruct (proj2 (proj2 (kinds_exclusive n)) H) as [-> ->]. rewrite H. reflexivity.
-Qed.
-
-Lemma classify_other n : is_method n = false -> is_term n = false -> is_lvar n = false -> classify n = COther.
-Proof. unfold classify. intros -> -> ->. reflexivity. Qed.
+(* ---- association lists ---- *)
 
 Lemma alookup_some_in {V} k (c : list (str * V)) v : alookup k c = Some v -> In k (map fst c).
 Proof.
@@ -205,11 +112,6 @@ Proof.
   destruct (str_eqb k k') eqn:E; [discriminate|]. intros H [H1|H1].
   - subst k'. rewrite str_eqb_refl in E. discriminate.
   - exact (IH H H1).
-Qed.
-
-Lemma alookup_notin_none {V} k (c : list (str * V)) : ~ In k (map fst c) -> alookup k c = None.
-Proof.
-  intro H. destruct (alookup k c) eqn:E; [|reflexivity]. exfalso. apply H. eapply alookup_some_in. exact E.
 Qed.
 
 Lemma ainsert_absent {V} k (v : V) c : alookup k c = None -> ainsert k v c = c ++ [(k, v)].
@@ -230,208 +132,7 @@ Proof.
     + rewrite Hi. reflexivity.
 Qed.
 
-Lemma ainsert_keys_present {V} k (v v0 : V) c :
-  alookup k c = Some v0 -> map fst (ainsert k v c) = map fst c.
-Proof.
-  intro H. destruct (ainsert_present k v v0 c H) as (c1 & c2 & -> & _ & ->).
-  rewrite !map_app. reflexivity.
-Qed.
-
-(* ------------------------------------------------------------------------------------------ *)
-(* Part 2: a file's report is the union of its methods' reports                               *)
-(* ------------------------------------------------------------------------------------------ *)
-
-(* the root's children = leading non-methods, then (method, the non-methods that follow it)* *)
-Fixpoint split_methods (l : list node) : list node * list (node * list node) :=
-  match l with
-  | [] => ([], [])
-  | n :: l' => let r := split_methods l' in
-               if is_method n then ([], (n, fst r) :: snd r) else (n :: fst r, snd r)
-  end.
-
-Definition methods (file : node) : list node := filter is_method (nchildren file).
-
-Lemma split_methods_methods l : map fst (snd (split_methods l)) = filter is_method l.
-Proof.
-  induction l as [|n l IH]; [reflexivity|]. cbn [split_methods filter].
-  destruct (is_method n); cbn [fst snd map]; rewrite IH; reflexivity.
-Qed.
-
-(* keys under which the local declarations among the visits l are (or would be) stored *)
-Definition decl_keys (keyf : str -> str) (l : list ev) : list str :=
-  map (fun e => keyf (nident (ev_node e))) (filter e_lvar l).
-
-Lemma decl_keys_app keyf l1 l2 : decl_keys keyf (l1 ++ l2) = decl_keys keyf l1 ++ decl_keys keyf l2.
-Proof. unfold decl_keys. rewrite filter_app, map_app. reflexivity. Qed.
-
-(* a visit that neither resets nor declares *)
-Definition quiet_ev (e : ev) : Prop := e_method e = false /\ e_lvar e = false.
-
-(* a visit that leaves a map with the given keys unchanged *)
-Definition inert_ev (keyf : str -> str) (keys : list str) (e : ev) : Prop :=
-  e_method e = false /\ e_lvar e = false /\
-  (e_term e = true -> is_string_lit (ev_node e) = false -> In (keyf (nident (ev_node e))) keys ->
-   is_left_node (ev_parent e) (ev_node e) = false).
-
-Lemma inert_ev_incl keyf keys keys' e :
-  (forall k, In k keys' -> In k keys) -> inert_ev keyf keys e -> inert_ev keyf keys' e.
-Proof. intros Hi (H1 & H2 & H3). repeat split; auto. Qed.
-
-Lemma quiet_inert keyf e : quiet_ev e -> inert_ev keyf [] e.
-Proof. intros (H1 & H2). repeat split; auto. intros _ _ []. Qed.
-
-Lemma emit_inert keyf c e : inert_ev keyf (map fst c) e -> emit keyf c e = (c, []).
-Proof.
-  intros (Hm & Hl & Ht). unfold emit. unfold e_method, e_lvar, e_term in *.
-  pose proof (classify_spec (ev_node e)) as Hc. destruct (classify (ev_node e)).
-  - congruence.
-  - destruct Hc as [_ Hc]. destruct (is_string_lit (ev_node e)) eqn:Es; [reflexivity|].
-    destruct (alookup _ c) eqn:E; [|reflexivity].
-    rewrite (Ht Hc eq_refl (alookup_some_in _ _ _ E)). reflexivity.
-  - destruct Hc as (_ & _ & Hc). congruence.
-  - reflexivity.
-Qed.
-
-Lemma emits_inert keyf c l : Forall (inert_ev keyf (map fst c)) l -> emits keyf c l = (c, []).
-Proof.
-  induction 1 as [|e l He _ IH]; [reflexivity|]. cbn [emits]. rewrite (emit_inert _ _ _ He). cbn [fst snd].
-  rewrite IH. reflexivity.
-Qed.
-
-Lemma emit_keys keyf c e k :
-  In k (map fst (fst (emit keyf c e))) -> In k (map fst c) \/ (e_lvar e = true /\ k = keyf (nident (ev_node e))).
-Proof.
-  unfold emit, e_lvar. pose proof (classify_spec (ev_node e)) as Hc. destruct (classify (ev_node e)); cbn [fst map In].
-  - tauto.
-  - destruct (is_string_lit _); cbn [fst]; [tauto|]. destruct (alookup _ c) eqn:E; cbn [fst]; [|tauto].
-    destruct (is_left_node _ _); cbn [fst]; [|tauto]. rewrite (ainsert_keys_present _ _ _ _ E). tauto.
-  - destruct Hc as (_ & _ & Hc). destruct (alookup _ c) eqn:E; cbn [fst]; [tauto|].
-    rewrite (ainsert_absent _ _ _ E), map_app, in_app_iff. cbn [map fst In]. intros [H|[H|[]]]; [tauto|]. right. split; [exact Hc|congruence].
-  - tauto.
-Qed.
-
-Lemma emits_keys keyf l : forall c k,
-  In k (map fst (fst (emits keyf c l))) -> In k (map fst c) \/ In k (decl_keys keyf l).
-Proof.
-  induction l as [|e l IH]; intros c k; cbn [emits fst]; [tauto|].
-  intro H. apply IH in H. destruct H as [H|H].
-  - apply emit_keys in H. destruct H as [H|[H1 H2]]; [tauto|]. right. unfold decl_keys. cbn [filter]. rewrite H1. left. congruence.
-  - right. unfold decl_keys in *. cbn [filter]. destruct (e_lvar e); [right|]; exact H.
-Qed.
-
-(* the report of one method: the visits below the method node, from an empty map *)
-Definition method_report (keyf : str -> str) (m : node) : list diag :=
-  out keyf [] (walk_list m (nchildren m)).
-
-Definition solo (m : node) : node := Node KAstRoot [] 0 range0 [] [m].
-
-Lemma out_walk_method keyf c p m l :
-  is_method m = true ->
-  out keyf c (walk p m ++ l) = unused_of c ++ out keyf [] (walk_list m (nchildren m) ++ l).
-Proof. intro H. rewrite walk_eq. cbn [app]. apply out_method. exact H. Qed.
-
-(* a method's report is what the analyser says about the method alone *)
-Lemma analyze_solo keyf m : is_method m = true -> analyze keyf (solo m) = method_report keyf m.
-Proof.
-  intro H. rewrite analyze_out. unfold events, solo. cbn [nchildren walk_list].
-  rewrite (out_walk_method _ _ _ _ _ H), app_nil_r. reflexivity.
-Qed.
-
-Definition trailing_inert (keyf : str -> str) (file : node) (mT : node * list node) : Prop :=
-  Forall (fun t => Forall (inert_ev keyf (decl_keys keyf (walk file (fst mT)))) (walk file t)) (snd mT).
-
-Lemma decomp_gen keyf file : forall l c,
-  Forall (fun t => Forall (inert_ev keyf (map fst c)) (walk file t)) (fst (split_methods l)) ->
-  Forall (trailing_inert keyf file) (snd (split_methods l)) ->
-  out keyf c (walk_list file l) =
-  unused_of c ++ flat_map (fun mT => method_report keyf (fst mT)) (snd (split_methods l)).
-Proof.
-  induction l as [|n l IH]; intros c Hpre Hsegs.
-  - cbn. unfold out. cbn. rewrite app_nil_r. reflexivity.
-  - cbn [split_methods walk_list] in *. destruct (is_method n) eqn:Hm; cbn [fst snd flat_map] in *.
-    + rewrite (out_walk_method _ _ _ _ _ Hm). f_equal. rewrite out_app.
-      inversion Hsegs as [|? ? Hh Ht]; subst.
-      rewrite IH; [| |exact Ht].
-      * unfold method_report, out. rewrite !app_assoc. reflexivity.
-      * unfold trailing_inert in Hh. cbn [fst snd] in Hh. eapply Forall_impl; [|exact Hh].
-        intros t Hf. eapply Forall_impl; [|exact Hf]. intros e. apply inert_ev_incl.
-        intros k Hk. apply emits_keys in Hk. destruct Hk as [[]|Hk].
-        rewrite walk_eq. unfold decl_keys in *. cbn [filter]. unfold e_lvar at 1. cbn [ev_node snd].
-        destruct (proj1 (kinds_exclusive n) Hm) as [_ ->]. exact Hk.
-    + rewrite out_app. inversion Hpre as [|? ? Hh Ht]; subst.
-      rewrite (emits_inert _ _ _ Hh). cbn [fst snd app]. apply IH; assumption.
-Qed.
-
-(* WFtop: what must hold OUTSIDE the methods for the report to be per-method:
-   (a) the declarations before the first method contain no method node and no local declaration;
-   (b) the non-method declarations that follow a method m contain no method node, no local
-       declaration, and no terminal (other than a string literal) that the analyser would count as
-       a use of a local of m. *)
-Definition WFtop (keyf : str -> str) (file : node) : Prop :=
-  Forall (fun t => Forall quiet_ev (walk file t)) (fst (split_methods (nchildren file))) /\
-  Forall (trailing_inert keyf file) (snd (split_methods (nchildren file))).
-
-Theorem report_decomposes keyf file :
-  WFtop keyf file -> analyze keyf file = flat_map (method_report keyf) (methods file).
-Proof.
-  intros [H1 H2]. rewrite analyze_out. unfold events. rewrite decomp_gen; [| |exact H2].
-  - cbn [unused_of flat_map app]. unfold methods. rewrite <- split_methods_methods.
-    rewrite flat_map_concat_map, (flat_map_concat_map _ (map fst _)), map_map. reflexivity.
-  - eapply Forall_impl; [|exact H1]. intros t Hf. eapply Forall_impl; [|exact Hf]. intros e. apply quiet_inert.
-Qed.
-
-Lemma Permutation_filter {A} (f : A -> bool) l l' : Permutation l l' -> Permutation (filter f l) (filter f l').
-Proof.
-  induction 1; cbn [filter].
-  - constructor.
-  - destruct (f x); [constructor|]; assumption.
-  - destruct (f x), (f y); try apply perm_swap; apply Permutation_refl.
-  - eapply Permutation_trans; eassumption.
-Qed.
-
-(* permuting the top-level declarations permutes the report, as long as both arrangements are WFtop *)
-Theorem report_per_method keyf file file' :
-  Permutation (nchildren file) (nchildren file') -> WFtop keyf file -> WFtop keyf file' ->
-  Permutation (analyze keyf file) (analyze keyf file').
-Proof.
-  intros Hp H1 H2. rewrite (report_decomposes _ _ H1), (report_decomposes _ _ H2).
-  apply Permutation_flat_map. unfold methods. apply Permutation_filter. exact Hp.
-Qed.
-
-(* ------------------------------------------------------------------------------------------ *)
-(* Part 3a: what exactly the analyser reports for a stretch of visits without method nodes    *)
-(*          (guard-free)                                                                      *)
-(* ------------------------------------------------------------------------------------------ *)
-
-(* the visit e is counted as a use of the variable stored under key k *)
-Definition is_use (keyf : str -> str) (k : str) (e : ev) : bool :=
-  e_term e && name_tok (ev_node e) && str_eqb (keyf (nident (ev_node e))) k && is_left_node (ev_parent e) (ev_node e).
-
-Definition touched (keyf : str -> str) (k : str) (l : list ev) : bool := existsb (is_use keyf k) l.
-
-Definition warn_of (k : str) (r : range) : diag := mkDiag SEV_WARNING CL_UNUSED r k.
-
-Definition survivor (keyf : str -> str) (l : list ev) (kv : str * vinfo) : list diag :=
-  if (vuses (snd kv) =? 0) && negb (touched keyf (fst kv) l) then [warn_of (vname (snd kv)) (vrange (snd kv))] else [].
-
-(* entries already in the map: still unused at the end iff unused so far and not used in l *)
-Definition survivors (keyf : str -> str) (c : cmap) (l : list ev) : list diag := flat_map (survivor keyf l) c.
-
 Definition mem_str (k : str) (l : list str) : bool := existsb (str_eqb k) l.
-
-(* declarations met in l: the FIRST declaration of a key is reported iff no use FOLLOWS it;
-   a repeated declaration is never reported unused (it gets the "already declared" error) *)
-Fixpoint fresh_warns (keyf : str -> str) (seen : list str) (l : list ev) : list diag :=
-  match l with
-  | [] => []
-  | e :: l' =>
-      if e_lvar e then
-        let k := keyf (nident (ev_node e)) in
-        if mem_str k seen then fresh_warns keyf seen l'
-        else (if touched keyf k l' then [] else [warn_of (nident (ev_node e)) (ident_range (ev_node e))])
-             ++ fresh_warns keyf (seen ++ [k]) l'
-      else fresh_warns keyf seen l'
-  end.
 
 Lemma mem_str_in k l : mem_str k l = true <-> In k l.
 Proof.
@@ -440,310 +141,36 @@ Proof.
   - intro H. exists k. split; [exact H|apply str_eqb_refl].
 Qed.
 
-Lemma survivors_nil keyf c : survivors keyf c [] = unused_of c.
+Lemma mem_str_notin k l : mem_str k l = false <-> ~ In k l.
 Proof.
-  unfold survivors, unused_of. apply flat_map_ext. intro kv. unfold survivor, touched, warn_of. cbn [existsb negb].
-  rewrite andb_true_r. reflexivity.
+  split.
+  - intros H Hin. apply mem_str_in in Hin. congruence.
+  - intro H. destruct (mem_str k l) eqn:E; [|reflexivity]. apply mem_str_in in E. contradiction.
 Qed.
-
-Lemma survivors_app keyf c1 c2 l : survivors keyf (c1 ++ c2) l = survivors keyf c1 l ++ survivors keyf c2 l.
-Proof. unfold survivors. apply flat_map_app. Qed.
-
-Lemma survivors_cons keyf kv c l : survivors keyf (kv :: c) l = survivor keyf l kv ++ survivors keyf c l.
-Proof. reflexivity. Qed.
-
-Lemma survivors_cons_nouse keyf c e l :
-  (forall k, In k (map fst c) -> is_use keyf k e = false) -> survivors keyf c (e :: l) = survivors keyf c l.
-Proof.
-  unfold survivors. induction c as [|kv c IH]; intro H; [reflexivity|]. cbn [flat_map].
-  rewrite IH by (intros k Hk; apply H; right; exact Hk). f_equal.
-  unfold survivor, touched. cbn [existsb]. rewrite (H (fst kv)) by (left; reflexivity). reflexivity.
-Qed.
-
-Lemma is_use_nonterm keyf k e : e_term e = false -> is_use keyf k e = false.
-Proof. unfold is_use. intros ->. reflexivity. Qed.
 
 Lemma NoDup_snoc {A} (l : list A) a : NoDup l -> ~ In a l -> NoDup (l ++ [a]).
 Proof.
   intros H1 H2. eapply Permutation_NoDup; [apply Permutation_cons_append|]. constructor; assumption.
 Qed.
 
-Lemma fresh_warns_nolvar keyf seen e l : e_lvar e = false -> fresh_warns keyf seen (e :: l) = fresh_warns keyf seen l.
-Proof. intro H. cbn [fresh_warns]. rewrite H. reflexivity. Qed.
-
-Theorem unused_exact_events keyf l :
-  Forall (fun e => e_method e = false) l -> forall c, NoDup (map fst c) ->
-  unused_of (fst (emits keyf c l)) = survivors keyf c l ++ fresh_warns keyf (map fst c) l.
+Lemma flat_map_ext_in' {A B} (f g : A -> list B) l : (forall a, In a l -> f a = g a) -> flat_map f l = flat_map g l.
 Proof.
-  induction 1 as [|e l Hm _ IH]; intros c Hnd.
-  - cbn [emits fst fresh_warns]. rewrite survivors_nil, app_nil_r. reflexivity.
-  - cbn [emits fst]. unfold emit. unfold e_method in Hm.
-    pose proof (classify_spec (ev_node e)) as Hc. destruct (classify (ev_node e)).
-    + congruence.
-    + (* a terminal *)
-      destruct Hc as [_ Ht].
-      assert (Hl : e_lvar e = false) by (apply (proj1 (proj2 (kinds_exclusive _)) Ht)).
-      rewrite (fresh_warns_nolvar _ _ _ _ Hl).
-      destruct (is_string_lit (ev_node e)) eqn:Es.
-      { cbn [fst]. rewrite IH by exact Hnd. f_equal. symmetry. apply survivors_cons_nouse.
-        intros k' _. unfold is_use, name_tok. rewrite Es. cbn [negb]. rewrite andb_false_r. reflexivity. }
-      set (k := keyf (nident (ev_node e))).
-      destruct (alookup k c) as [v|] eqn:E.
-      * destruct (is_left_node (ev_parent e) (ev_node e)) eqn:El; cbn [fst].
-        -- destruct (ainsert_present k (mkV (vuses v + 1) (vrange v) (vname v)) v c E) as (c1 & c2 & Hc & Hn1 & Hi).
-           rewrite Hi. rewrite IH.
-           2:{ rewrite <- Hi, (ainsert_keys_present _ _ _ _ E). exact Hnd. }
-           assert (Hn2 : ~ In k (map fst c2)).
-           { subst c. rewrite map_app in Hnd. cbn [map fst] in Hnd. apply NoDup_remove_2 in Hnd.
-             intro Hin. apply Hnd. apply in_or_app. right. exact Hin. }
-           assert (Hother : forall c' : cmap, ~ In k (map fst c') -> forall k', In k' (map fst c') -> is_use keyf k' e = false).
-           { intros c' Hn k' Hk'. unfold is_use. fold k. destruct (str_eqb k k') eqn:Ek; [|rewrite andb_false_r; reflexivity].
-             apply str_eqb_eq in Ek. subst k'. contradiction. }
-           assert (Hk : is_use keyf k e = true).
-           { unfold is_use, name_tok. fold k. unfold e_term. rewrite Ht, Es, str_eqb_refl, El. reflexivity. }
-           replace (map fst (c1 ++ (k, mkV (vuses v + 1) (vrange v) (vname v)) :: c2)) with (map fst c)
-             by (subst c; rewrite !map_app; reflexivity).
-           f_equal. subst c. rewrite !survivors_app, !survivors_cons.
-           rewrite (survivors_cons_nouse _ c1 e l (Hother c1 Hn1)), (survivors_cons_nouse _ c2 e l (Hother c2 Hn2)).
-           f_equal. f_equal. unfold survivor, touched. cbn [fst snd vuses existsb]. rewrite Hk. cbn [orb negb].
-           rewrite andb_false_r. replace (vuses v + 1 =? 0) with false; [reflexivity|].
-           symmetry. apply N.eqb_neq. lia.
-        -- rewrite IH by exact Hnd. f_equal. symmetry. apply survivors_cons_nouse.
-           intros k' _. unfold is_use. rewrite El. apply andb_false_r.
-      * cbn [fst]. rewrite IH by exact Hnd. f_equal. symmetry. apply survivors_cons_nouse.
-        intros k' Hk'. unfold is_use. fold k. destruct (str_eqb k k') eqn:Ek; [|rewrite andb_false_r; reflexivity].
-        apply str_eqb_eq in Ek. subst k'. exfalso. exact (alookup_none_notin _ _ E Hk').
-    + (* a local declaration *)
-      destruct Hc as (_ & Ht & Hl). cbn [fresh_warns]. unfold e_lvar at 1. rewrite Hl.
-      set (k := keyf (nident (ev_node e))).
-      assert (Hs : survivors keyf c (e :: l) = survivors keyf c l).
-      { apply survivors_cons_nouse. intros k' _. apply is_use_nonterm. exact Ht. }
-      destruct (alookup k c) as [v|] eqn:E; cbn [fst].
-      * rewrite (proj2 (mem_str_in k (map fst c)) (alookup_some_in _ _ _ E)).
-        rewrite IH by exact Hnd. rewrite Hs. reflexivity.
-      * pose proof (alookup_none_notin _ _ E) as Hn.
-        destruct (mem_str k (map fst c)) eqn:Em; [apply mem_str_in in Em; contradiction|].
-        rewrite (ainsert_absent _ _ _ E). rewrite IH.
-        2:{ rewrite map_app. cbn [map fst]. apply NoDup_snoc; assumption. }
-        rewrite survivors_app, Hs, map_app. cbn [map fst]. rewrite <- app_assoc. f_equal. f_equal.
-        rewrite survivors_cons. unfold survivors at 1. cbn [flat_map]. rewrite app_nil_r. unfold survivor. cbn [fst snd vuses vrange vname].
-        cbn [N.eqb andb]. destruct (touched keyf k l); reflexivity.
-    + (* anything else *)
-      destruct Hc as (_ & Ht & Hl). cbn [fst]. rewrite (fresh_warns_nolvar _ _ _ _ Hl).
-      rewrite IH by exact Hnd. f_equal. symmetry. apply survivors_cons_nouse.
-      intros k' _. apply is_use_nonterm. exact Ht.
+  induction l as [|a l IH]; intro H; [reflexivity|]. cbn [flat_map].
+  rewrite (H a (or_introl eq_refl)), IH; [reflexivity|]. intros b Hb. apply H. right. exact Hb.
 Qed.
 
-(* the visits of a stretch without method nodes only ever push "already declared" errors *)
-Lemma emits_diags_dup keyf l :
-  Forall (fun e => e_method e = false) l -> forall c,
-  Forall (fun d => is_unused_diag d = false) (snd (emits keyf c l)).
-Proof.
-  induction 1 as [|e l Hm _ IH]; intro c; cbn [emits snd]; [constructor|].
-  apply Forall_app. split; [|apply IH].
-  unfold emit. unfold e_method in Hm. pose proof (classify_spec (ev_node e)) as Hc.
-  destruct (classify (ev_node e)); [congruence| | |constructor].
-  - destruct (is_string_lit _); [constructor|]. destruct (alookup _ c); [destruct (is_left_node _ _)|]; constructor.
-  - destruct (alookup _ c); cbn [snd]; repeat constructor.
-Qed.
+Lemma flat_map_map {A B C} (f : B -> list C) (h : A -> B) l : flat_map f (map h l) = flat_map (fun a => f (h a)) l.
+Proof. induction l as [|a l IH]; [reflexivity|]. cbn [map flat_map]. rewrite IH. reflexivity. Qed.
 
-Lemma unused_of_all_U c : Forall (fun d => is_unused_diag d = true) (unused_of c).
-Proof.
-  unfold unused_of. induction c as [|kv c IH]; cbn [flat_map]; [constructor|].
-  apply Forall_app. split; [|exact IH]. destruct (vuses (snd kv) =? 0); repeat constructor.
-Qed.
+Lemma filter_flat_map {A B} (f : B -> bool) (g : A -> list B) l :
+  filter f (flat_map g l) = flat_map (fun a => filter f (g a)) l.
+Proof. induction l as [|a l IH]; [reflexivity|]. cbn [flat_map]. rewrite filter_app, IH. reflexivity. Qed.
 
 Lemma filter_all_false {A} (f : A -> bool) l : Forall (fun x => f x = false) l -> filter f l = [].
 Proof. induction 1 as [|x l H _ IH]; [reflexivity|]. cbn [filter]. rewrite H. exact IH. Qed.
 
 Lemma filter_all_true {A} (f : A -> bool) l : Forall (fun x => f x = true) l -> filter f l = l.
 Proof. induction 1 as [|x l H _ IH]; [reflexivity|]. cbn [filter]. rewrite H, IH. reflexivity. Qed.
-
-(* the "Unused var" warnings of a stretch of visits without method nodes, from an empty map *)
-Theorem unused_of_stretch keyf l :
-  Forall (fun e => e_method e = false) l ->
-  filter is_unused_diag (out keyf [] l) = fresh_warns keyf [] l.
-Proof.
-  intro H. unfold out. rewrite filter_app, (filter_all_false _ _ (emits_diags_dup keyf l H [])).
-  rewrite (filter_all_true _ _ (unused_of_all_U _)). cbn [app].
-  rewrite (unused_exact_events keyf l H [] (NoDup_nil _)). reflexivity.
-Qed.
-
-(* without repeated declarations: every declaration is reported iff no use follows it *)
-Fixpoint order_warns (keyf : str -> str) (l : list ev) : list diag :=
-  match l with
-  | [] => []
-  | e :: l' =>
-      (if e_lvar e
-       then if touched keyf (keyf (nident (ev_node e))) l' then []
-            else [warn_of (nident (ev_node e)) (ident_range (ev_node e))]
-       else []) ++ order_warns keyf l'
-  end.
-
-Lemma fresh_order keyf l : forall seen,
-  NoDup (seen ++ decl_keys keyf l) -> fresh_warns keyf seen l = order_warns keyf l.
-Proof.
-  induction l as [|e l IH]; intros seen Hnd; [reflexivity|]. cbn [fresh_warns order_warns].
-  unfold decl_keys in Hnd. cbn [filter] in Hnd. destruct (e_lvar e) eqn:El.
-  - cbn [map] in Hnd. destruct (mem_str _ seen) eqn:Em.
-    + apply mem_str_in in Em. apply NoDup_remove_2 in Hnd. exfalso. apply Hnd. apply in_or_app. left. exact Em.
-    + f_equal. apply IH. rewrite <- app_assoc. exact Hnd.
-  - cbn [app]. apply IH. exact Hnd.
-Qed.
-
-(* ------------------------------------------------------------------------------------------ *)
-(* Part 3b: the specification on trees                                                        *)
-(* ------------------------------------------------------------------------------------------ *)
-
-(* the nodes below a node, each with its parent AND its index among the parent's children *)
-Definition iev := (node * nat * node)%type.
-Definition erase (e : iev) : ev := (fst (fst e), snd e).
-
-Fixpoint iwalk (p : node) (i : nat) (n : node) {struct n} : list iev :=
-  (p, i, n) ::
-  match n with
-  | Node _ _ _ _ _ ch =>
-      (fix go (j : nat) (l : list node) {struct l} : list iev :=
-         match l with
-         | [] => []
-         | c :: l' => iwalk n j c ++ go (S j) l'
-         end) 0%nat ch
-  end.
-
-Fixpoint iwalk_list (p : node) (j : nat) (l : list node) : list iev :=
-  match l with
-  | [] => []
-  | c :: l' => iwalk p j c ++ iwalk_list p (S j) l'
-  end.
-
-Lemma iwalk_go_eq q l : forall j,
-  (fix go (j : nat) (l : list node) {struct l} : list iev :=
-     match l with [] => [] | c :: l' => iwalk q j c ++ go (S j) l' end) j l = iwalk_list q j l.
-Proof. induction l as [|c l IH]; intro j; [reflexivity|]. cbn [iwalk_list]. rewrite <- IH. reflexivity. Qed.
-
-Lemma iwalk_eq p i n : iwalk p i n = (p, i, n) :: iwalk_list n 0 (nchildren n).
-Proof. destruct n as [k id r rg a ch]. cbn [iwalk nchildren]. f_equal. apply iwalk_go_eq. Qed.
-
-Lemma iwalk_list_erase q l :
-  Forall (fun c => forall p i, map erase (iwalk p i c) = walk p c) l ->
-  forall j, map erase (iwalk_list q j l) = walk_list q l.
-Proof.
-  induction 1 as [|c l Hc _ IH]; intro j; [reflexivity|]. cbn [iwalk_list walk_list].
-  rewrite map_app, Hc, IH. reflexivity.
-Qed.
-
-(* the indexed enumeration is the walker's visit list with the indices added *)
-Lemma iwalk_erase n : forall p i, map erase (iwalk p i n) = walk p n.
-Proof.
-  induction n as [k id r rg a ch IH] using node_ind'. intros p i.
-  rewrite iwalk_eq, walk_eq. cbn [map erase fst snd nchildren]. f_equal. apply iwalk_list_erase. exact IH.
-Qed.
-
-Lemma iwalk_list_erase' q j l : map erase (iwalk_list q j l) = walk_list q l.
-Proof. apply iwalk_list_erase. apply Forall_forall. intros c _. apply iwalk_erase. Qed.
-
-Lemma iwalk_list_child l :
-  Forall (fun n => forall q j p i t, In (p, i, t) (iwalk q j n) ->
-                   (p, i, t) = (q, j, n) \/ nth_error (nchildren p) i = Some t) l ->
-  forall q j p i t, In (p, i, t) (iwalk_list q j l) ->
-  (p = q /\ exists d, i = (j + d)%nat /\ nth_error l d = Some t) \/ nth_error (nchildren p) i = Some t.
-Proof.
-  induction 1 as [|c l Hc _ IH]; intros q j p i t Hin; [destruct Hin|].
-  cbn [iwalk_list] in Hin. apply in_app_or in Hin. destruct Hin as [Hin|Hin].
-  - apply Hc in Hin. destruct Hin as [E|E]; [|right; exact E].
-    inversion E; subst. left. split; [reflexivity|]. exists 0%nat. split; [lia|reflexivity].
-  - apply IH in Hin. destruct Hin as [(-> & d & -> & Hd)|E]; [|right; exact E].
-    left. split; [reflexivity|]. exists (S d). split; [lia|exact Hd].
-Qed.
-
-(* every indexed entry (p,i,t) other than the starting one really is: t = the i-th child of p *)
-Lemma iwalk_child n : forall q j p i t, In (p, i, t) (iwalk q j n) ->
-  (p, i, t) = (q, j, n) \/ nth_error (nchildren p) i = Some t.
-Proof.
-  induction n as [k id r rg a ch IH] using node_ind'. intros q j p i t Hin.
-  rewrite iwalk_eq in Hin. destruct Hin as [E|Hin]; [left; symmetry; exact E|]. right.
-  apply (iwalk_list_child _ IH) in Hin. destruct Hin as [(-> & d & -> & Hd)|E]; [|exact E]. exact Hd.
-Qed.
-
-Lemma sub_child m p i t : In (p, i, t) (iwalk_list m 0 (nchildren m)) -> nth_error (nchildren p) i = Some t.
-Proof.
-  intro Hin. apply iwalk_list_child in Hin.
-  - destruct Hin as [(-> & d & -> & Hd)|E]; [exact Hd|exact E].
-  - apply Forall_forall. intros c _. apply iwalk_child.
-Qed.
-
-(* "the member name to the right of a dot": a child other than the first of a '.' binary op *)
-Definition right_of_dot (p : node) (i : nat) : bool :=
-  is_kind KAstBinaryOp p && op_is_dot p && negb (Nat.eqb i 0).
-
-Definition is_mention (x : str) (e : iev) : bool :=
-  let t := snd e in
-  is_term t && name_tok t && negb (right_of_dot (fst (fst e)) (snd (fst e))) && ci_eqb (nident t) x.
-
-Definition sub_ievents (m : node) : list iev := iwalk_list m 0 (nchildren m).
-Definition sub_events (m : node) : list ev := walk_list m (nchildren m).
-
-(* some statement of the method mentions x other than as a member name after a dot, ignoring case *)
-Definition mentions (m : node) (x : str) : bool := existsb (is_mention x) (sub_ievents m).
-
-Definition local_decls (m : node) : list node := map ev_node (filter e_lvar (sub_events m)).
-
-(* one warning per unmentioned local, on the declared name *)
-Definition method_spec (m : node) : list diag :=
-  flat_map (fun d => if mentions m (nident d) then [] else [warn_of (nident d) (ident_range d)])
-           (local_decls m).
-
-Definition unused_spec (file : node) : list diag :=
-  flat_map method_spec (methods file).
-
-(* ---- the per-method guards ---- *)
-
-(* the key function identifies exactly the names that differ in letter case only *)
-Definition key_ci (keyf : str -> str) : Prop := forall a b, keyf a = keyf b <-> upper a = upper b.
-
-Lemma key_ci_upper : key_ci upper.
-Proof. intros a b. tauto. Qed.
-Lemma key_ci_today : key_ci key_today.
-Proof. exact key_ci_upper. Qed.
-
-(* no method node inside a method *)
-Definition G_flat (m : node) : Prop := Forall (fun e => e_method e = false) (sub_events m).
-(* no two declarations stored under one key *)
-Definition G_dup (keyf : str -> str) (m : node) : Prop := NoDup (decl_keys keyf (sub_events m)).
-(* a variable counted as used before its declaration is visited is also used after it *)
-Definition G_order (keyf : str -> str) (m : node) : Prop :=
-  forall l1 e l2, sub_events m = l1 ++ e :: l2 -> e_lvar e = true ->
-  touched keyf (keyf (nident (ev_node e))) l1 = true -> touched keyf (keyf (nident (ev_node e))) l2 = true.
-(* positions are sane: a later operand of a '.' does not have both the text and the start
-   position of the first operand (is_left_node compares "ident:pos" strings) *)
-Definition G_pos (m : node) : Prop :=
-  forall p i t l, In (p, i, t) (sub_ievents m) -> is_term t = true ->
-  is_kind KAstBinaryOp p = true -> op_is_dot p = true -> i <> 0%nat ->
-  hd_error (nchildren p) = Some l -> ident_pos_eqb l t = false.
-
-Definition WFmeth (keyf : str -> str) (m : node) : Prop :=
-  G_flat m /\ G_dup keyf m /\ G_order keyf m /\ G_pos m.
-
-Lemma pos_eqb_refl a : pos_eqb a a = true.
-Proof. unfold pos_eqb. rewrite !N.eqb_refl. reflexivity. Qed.
-
-Lemma ident_pos_eqb_refl n : ident_pos_eqb n n = true.
-Proof. unfold ident_pos_eqb. rewrite str_eqb_refl, pos_eqb_refl. reflexivity. Qed.
-
-(* under G_pos the analyser's "is the left node" is "is not to the right of a dot" *)
-Lemma is_left_right m p i t :
-  G_pos m -> In (p, i, t) (sub_ievents m) -> is_term t = true ->
-  is_left_node p t = negb (right_of_dot p i).
-Proof.
-  intros Hg Hin Ht. pose proof (sub_child _ _ _ _ Hin) as Hc.
-  unfold is_left_node, right_of_dot. destruct (is_kind KAstBinaryOp p) eqn:Ek; [|reflexivity].
-  destruct (op_is_dot p) eqn:Ed; [|reflexivity]. cbn [negb andb].
-  destruct i as [|i].
-  - cbn [Nat.eqb negb]. destruct (nchildren p) as [|l ch]; [reflexivity|]. cbn [nth_error] in Hc.
-    inversion Hc; subst. apply ident_pos_eqb_refl.
-  - cbn [Nat.eqb negb]. destruct (nchildren p) as [|l ch] eqn:Ech; [discriminate|].
-    apply (Hg p (S i) t l Hin Ht Ek Ed); [discriminate|]. rewrite Ech. reflexivity.
-Qed.
 
 Lemma existsb_ext_in {A} (f g : A -> bool) l : (forall a, In a l -> f a = g a) -> existsb f l = existsb g l.
 Proof.
@@ -754,179 +181,670 @@ Qed.
 Lemma existsb_map {A B} (f : B -> bool) (h : A -> B) l : existsb f (map h l) = existsb (fun a => f (h a)) l.
 Proof. induction l as [|a l IH]; [reflexivity|]. cbn [map existsb]. rewrite IH. reflexivity. Qed.
 
-Lemma sub_erase m : map erase (sub_ievents m) = sub_events m.
-Proof. apply iwalk_list_erase'. Qed.
+Lemma existsb_flat_map {A B} (f : B -> bool) (h : A -> list B) l :
+  existsb f (flat_map h l) = existsb (fun a => existsb f (h a)) l.
+Proof. induction l as [|a l IH]; [reflexivity|]. cbn [flat_map existsb]. rewrite existsb_app, IH. reflexivity. Qed.
 
-(* for a declared local d: "mentioned somewhere in the method" = "counted as used somewhere" *)
-Lemma mentions_touched keyf m x :
-  key_ci keyf -> G_pos m ->
-  mentions m x = touched keyf (keyf x) (sub_events m).
+Lemma Permutation_filter {A} (f : A -> bool) l l' : Permutation l l' -> Permutation (filter f l) (filter f l').
 Proof.
-  intros Hk Hp. unfold mentions, touched. rewrite <- sub_erase, existsb_map.
-  apply existsb_ext_in. intros [[p i] t] Hin. unfold is_mention, is_use, e_term, erase. cbn [fst snd ev_node ev_parent].
-  destruct (is_term t) eqn:Ht; [|reflexivity]. cbn [andb].
-  rewrite <- (is_left_right m p i t Hp Hin Ht).
-  replace (str_eqb (keyf (nident t)) (keyf x)) with (ci_eqb (nident t) x).
-  - destruct (name_tok t), (is_left_node p t), (ci_eqb (nident t) x); reflexivity.
-  - unfold ci_eqb. destruct (str_eqb (upper (nident t)) (upper x)) eqn:E.
-    + apply str_eqb_eq in E. apply Hk in E. rewrite E. symmetry. apply str_eqb_refl.
-    + symmetry. apply str_eqb_neq. intro H. apply Hk in H. rewrite H, str_eqb_refl in E. discriminate.
+  induction 1; cbn [filter].
+  - constructor.
+  - destruct (f x); [constructor|]; assumption.
+  - destruct (f x), (f y); try apply perm_swap; apply Permutation_refl.
+  - eapply Permutation_trans; eassumption.
 Qed.
 
-Lemma order_spec_gen keyf (ment : node -> bool) B : forall l1 l2, B = l1 ++ l2 ->
-  (forall l1 e l2, B = l1 ++ e :: l2 -> e_lvar e = true ->
-                   touched keyf (keyf (nident (ev_node e))) l2 = ment (ev_node e)) ->
-  order_warns keyf l2 =
-  flat_map (fun d => if ment d then [] else [warn_of (nident d) (ident_range d)])
-           (map ev_node (filter e_lvar l2)).
+(* ------------------------------------------------------------------------------------------ *)
+(* Part 2: what one method's analysis produces; a file's report                                *)
+(* ------------------------------------------------------------------------------------------ *)
+
+Definition warn_of (k : str) (r : range) : diag := mkDiag SEV_WARNING CL_UNUSED r k.
+Definition dup_diag (n : node) : diag := mkDiag SEV_ERROR CL_DUP (ident_range n) [].
+Definition entry_of (keyf : str -> str) (n : node) : str * vinfo :=
+  (keyf (nident n), mkV 0 (ident_range n) (nident n)).
+
+(* the declarations that enter the map: the first one under each key ... *)
+Fixpoint first_by (keyf : str -> str) (seen : list str) (l : list node) : list node :=
+  match l with
+  | [] => []
+  | n :: l' => let k := keyf (nident n) in
+               if mem_str k seen then first_by keyf seen l' else n :: first_by keyf (seen ++ [k]) l'
+  end.
+(* ... and those that get "Var name already declared": every later one *)
+Fixpoint later_by (keyf : str -> str) (seen : list str) (l : list node) : list node :=
+  match l with
+  | [] => []
+  | n :: l' => let k := keyf (nident n) in
+               if mem_str k seen then n :: later_by keyf seen l' else later_by keyf (seen ++ [k]) l'
+  end.
+
+Lemma first_by_in keyf l : forall seen n, In n (first_by keyf seen l) -> In n l.
 Proof.
-  intros l1 l2. revert l1. induction l2 as [|e l2 IH]; intros l1 HB H; [reflexivity|].
-  cbn [order_warns filter]. destruct (e_lvar e) eqn:El.
-  - cbn [map flat_map]. rewrite (H l1 e l2 HB El). f_equal.
-    apply (IH (l1 ++ [e])); [rewrite <- app_assoc; exact HB|exact H].
-  - cbn [app]. apply (IH (l1 ++ [e])); [rewrite <- app_assoc; exact HB|exact H].
+  induction l as [|a l IH]; intros seen n; cbn [first_by]; [tauto|].
+  destruct (mem_str _ seen); cbn [In]; intro H; [right; eapply IH; exact H|].
+  destruct H as [H|H]; [left; exact H|right; eapply IH; exact H].
 Qed.
 
-(* one method, analysed alone: its warnings are exactly the specified ones *)
+Lemma later_by_in keyf l : forall seen n, In n (later_by keyf seen l) -> In n l.
+Proof.
+  induction l as [|a l IH]; intros seen n; cbn [later_by]; [tauto|].
+  destruct (mem_str _ seen); cbn [In]; intro H; [|right; eapply IH; exact H].
+  destruct H as [H|H]; [left; exact H|right; eapply IH; exact H].
+Qed.
+
+Lemma first_by_nodup keyf l : forall seen, NoDup seen ->
+  NoDup (seen ++ map (fun n => keyf (nident n)) (first_by keyf seen l)).
+Proof.
+  induction l as [|a l IH]; intros seen Hs; cbn [first_by map]; [rewrite app_nil_r; exact Hs|].
+  destruct (mem_str (keyf (nident a)) seen) eqn:E; [apply IH; exact Hs|].
+  cbn [map]. replace (seen ++ keyf (nident a) :: map (fun n => keyf (nident n)) (first_by keyf (seen ++ [keyf (nident a)]) l))
+    with ((seen ++ [keyf (nident a)]) ++ map (fun n => keyf (nident n)) (first_by keyf (seen ++ [keyf (nident a)]) l))
+    by (rewrite <- app_assoc; reflexivity).
+  apply IH. apply NoDup_snoc; [exact Hs|]. apply mem_str_notin. exact E.
+Qed.
+
+Definition decl_step (keyf : str -> str) (s : st) (n : node) : st :=
+  if is_kind KAstLocalVariableDeclaration n then notify_local_var keyf s n else s.
+
+(* collect_local_vars, exactly *)
+Lemma collect_fold keyf l : forall s,
+  fold_left (decl_step keyf) l s =
+  mkSt (cur s ++ map (entry_of keyf) (first_by keyf (map fst (cur s)) (filter is_lvar l)))
+       (diags s ++ map dup_diag (later_by keyf (map fst (cur s)) (filter is_lvar l))).
+Proof.
+  induction l as [|n l IH]; intro s; cbn [fold_left filter].
+  - cbn [first_by later_by map]. rewrite !app_nil_r. destruct s; reflexivity.
+  - unfold decl_step at 2. change (is_kind KAstLocalVariableDeclaration n) with (is_lvar n). destruct (is_lvar n) eqn:El; [|apply IH].
+    rewrite IH. cbn [first_by later_by]. unfold notify_local_var.
+    destruct (alookup (keyf (nident n)) (cur s)) as [v|] eqn:E; cbn [cur diags].
+    + rewrite (proj2 (mem_str_in _ _) (alookup_some_in _ _ _ E)). cbn [map]. rewrite <- app_assoc. reflexivity.
+    + rewrite (proj2 (mem_str_notin _ _) (alookup_none_notin _ _ E)).
+      rewrite (ainsert_absent _ _ _ E), map_app. cbn [map fst]. rewrite <- app_assoc. reflexivity.
+Qed.
+
+(* some mentioned name is stored under key k *)
+Definition hit (keyf : str -> str) (names : list str) (k : str) : bool :=
+  existsb (fun nm => str_eqb (keyf nm) k) names.
+
+Definition live (keyf : str -> str) (names : list str) (kv : str * vinfo) : list diag :=
+  if hit keyf names (fst kv) then [] else unused_of [kv].
+
+Lemma unused_of_app c1 c2 : unused_of (c1 ++ c2) = unused_of c1 ++ unused_of c2.
+Proof. unfold unused_of. apply flat_map_app. Qed.
+
+Lemma unused_of_flat c : unused_of c = flat_map (fun kv => unused_of [kv]) c.
+Proof.
+  induction c as [|kv c IH]; [reflexivity|]. change (kv :: c) with ([kv] ++ c). rewrite unused_of_app.
+  cbn [flat_map app]. rewrite IH. reflexivity.
+Qed.
+
+(* count_mentions, exactly: the diagnostics are untouched; an entry is still reported afterwards iff
+   it was going to be and no mentioned name has its key *)
+Lemma mentions_fold keyf names : forall c d, NoDup (map fst c) ->
+  diags (fold_left (notify_mention keyf) names (mkSt c d)) = d /\
+  unused_of (cur (fold_left (notify_mention keyf) names (mkSt c d))) = flat_map (live keyf names) c.
+Proof.
+  induction names as [|nm names IH]; intros c d Hnd; cbn [fold_left].
+  - split; [reflexivity|]. cbn [cur]. unfold live, hit. cbn [existsb]. apply unused_of_flat.
+  - unfold notify_mention at 2 4. cbn [cur diags]. set (k := keyf nm).
+    destruct (alookup k c) as [v|] eqn:E.
+    + destruct (ainsert_present k (mkV (vuses v + 1) (vrange v) (vname v)) v c E) as (c1 & c2 & Hc & Hn1 & Hi).
+      rewrite Hi.
+      assert (Hk : map fst (c1 ++ (k, mkV (vuses v + 1) (vrange v) (vname v)) :: c2) = map fst c)
+        by (rewrite Hc, !map_app; reflexivity).
+      destruct (IH (c1 ++ (k, mkV (vuses v + 1) (vrange v) (vname v)) :: c2) d) as [H1 H2]; [rewrite Hk; exact Hnd|].
+      split; [exact H1|]. rewrite H2. subst c. rewrite !flat_map_app. cbn [flat_map].
+      assert (Hn2 : ~ In k (map fst c2)).
+      { rewrite map_app in Hnd. cbn [map fst] in Hnd. apply NoDup_remove_2 in Hnd.
+        intro Hin. apply Hnd. apply in_or_app. right. exact Hin. }
+      assert (Hoth : forall c' : cmap, ~ In k (map fst c') -> flat_map (live keyf names) c' = flat_map (live keyf (nm :: names)) c').
+      { intros c' Hn. apply flat_map_ext_in'. intros kv Hin. unfold live, hit. cbn [existsb]. fold k.
+        destruct (str_eqb k (fst kv)) eqn:Ek; [|reflexivity]. apply str_eqb_eq in Ek. exfalso. apply Hn.
+        rewrite Ek. apply in_map. exact Hin. }
+      rewrite (Hoth c1 Hn1), (Hoth c2 Hn2). f_equal. f_equal.
+      unfold live at 2. unfold hit. cbn [existsb fst]. fold k. rewrite str_eqb_refl. cbn [orb].
+      unfold live. destruct (hit keyf names _); [reflexivity|]. cbn [fst]. unfold unused_of. cbn [flat_map snd vuses].
+      replace (vuses v + 1 =? 0) with false; [reflexivity|]. symmetry. apply N.eqb_neq. lia.
+    + destruct (IH c d Hnd) as [H1 H2]. split; [exact H1|]. rewrite H2.
+      apply flat_map_ext_in'. intros kv Hin. unfold live, hit. cbn [existsb]. fold k.
+      destruct (str_eqb k (fst kv)) eqn:Ek; [|reflexivity]. apply str_eqb_eq in Ek. exfalso.
+      apply (alookup_none_notin _ _ E). rewrite Ek. apply in_map. exact Hin.
+Qed.
+
+(* the local declarations and the mentioned names of a method's body, as the analyser meets them *)
+Definition body_lvars (m : node) : list node :=
+  match method_body m with Some b => filter is_lvar (subnodes b) | None => [] end.
+Definition body_names (m : node) : list str :=
+  match method_body m with Some b => mention_names false b | None => [] end.
+
+(* what the analyser says about one method: the visit of its node from an empty report *)
+Definition method_report (keyf : str -> str) (m : node) : list diag := diags (analyze_method keyf st0 m).
+
+Definition report_of (keyf : str -> str) (m : node) : list diag :=
+  map dup_diag (later_by keyf [] (body_lvars m)) ++
+  flat_map (fun n => if hit keyf (body_names m) (keyf (nident n)) then [] else [warn_of (nident n) (ident_range n)])
+           (first_by keyf [] (body_lvars m)).
+
+Lemma collect_eq keyf s b : collect keyf s b = fold_left (decl_step keyf) (subnodes b) s.
+Proof. reflexivity. Qed.
+
+(* analyze_method, exactly: the map is empty afterwards, the report grows by report_of *)
+Lemma analyze_method_eq keyf s m : analyze_method keyf s m = mkSt [] (diags s ++ report_of keyf m).
+Proof.
+  unfold analyze_method, report_of, body_lvars, body_names.
+  destruct (method_body m) as [b|].
+  - rewrite collect_eq, collect_fold. cbn [cur diags map app].
+    set (F := first_by keyf [] (filter is_lvar (subnodes b))).
+    set (D := diags s ++ map dup_diag (later_by keyf [] (filter is_lvar (subnodes b)))).
+    destruct (mentions_fold keyf (mention_names false b) (map (entry_of keyf) F) D) as [H1 H2].
+    { rewrite map_map. cbn [entry_of fst]. apply (first_by_nodup keyf _ [] (NoDup_nil _)). }
+    unfold check_unused. cbn [diags]. rewrite H1, H2. unfold D. rewrite <- app_assoc. f_equal. f_equal. f_equal.
+    rewrite flat_map_map. apply flat_map_ext. intro n. unfold live, entry_of. cbn [fst].
+    destruct (hit keyf _ _); reflexivity.
+  - cbn [check_unused cur diags unused_of flat_map later_by first_by map app]. rewrite app_nil_r. reflexivity.
+Qed.
+
+Theorem method_report_eq keyf m : method_report keyf m = report_of keyf m.
+Proof. unfold method_report. rewrite analyze_method_eq. reflexivity. Qed.
+
+(* every method node of the tree, in the order the walker reaches them *)
+Definition all_methods (file : node) : list node := filter is_method (flat_map subnodes (nchildren file)).
+
+Lemma run_eq keyf l : forall s,
+  cur s = [] ->
+  run keyf l s = mkSt [] (diags s ++ flat_map (method_report keyf) (filter is_method (map ev_node l))).
+Proof.
+  unfold run. induction l as [|e l IH]; intros s Hs; cbn [fold_left map filter flat_map].
+  - rewrite app_nil_r. destruct s as [c d]. cbn [cur] in Hs. subst c. reflexivity.
+  - unfold step at 2. destruct (is_method (ev_node e)) eqn:Em.
+    + rewrite analyze_method_eq, IH by reflexivity. cbn [diags flat_map]. rewrite method_report_eq, app_assoc. reflexivity.
+    + apply IH. exact Hs.
+Qed.
+
+(* the report of a file is the concatenation of the reports of its method nodes: each one a function of
+   that method node alone *)
+Theorem report_decomposes keyf file : analyze keyf file = flat_map (method_report keyf) (all_methods file).
+Proof.
+  unfold analyze. rewrite run_eq by reflexivity. cbn [diags st0 app]. unfold all_methods. rewrite events_nodes. reflexivity.
+Qed.
+
+Definition solo (m : node) : node := Node KAstRoot [] 0 range0 [] [m].
+
+(* ------------------------------------------------------------------------------------------ *)
+(* Part 3: the specification (the property read on the tree) and exactness                     *)
+(* ------------------------------------------------------------------------------------------ *)
+
+(* the statements of a method: the children of its body node (the header - name, parameters, return
+   type - is not a statement) *)
+Definition stmts (m : node) : list node :=
+  match method_body m with Some b => nchildren b | None => [] end.
+
+(* "the member name to the right of a dot": is the child of p in member position, p being itself
+   in member position or not (pm), the child being p's first child or not.
+   - every operand of a '.' but the first is a member name; the first operand stands where the '.' stands
+     (a.b.c read a.(b.c): b is a member name);
+   - the base of an indexed member is the member name: self.x[1] *)
+Definition member_pos (p : node) (pm first : bool) : bool :=
+  (is_dot_op p && (negb first || pm)) || (is_kind KAstArrayAccess p && first && pm).
+
+Lemma member_pos_child p pm first : member_pos p pm first = child_member p pm first.
+Proof.
+  unfold member_pos, child_member, is_dot_op, is_kind.
+  destruct (nkind p), (op_is_dot p), first, pm; reflexivity.
+Qed.
+
+(* (in member position?, node) for every node below n; nothing below a terminal *)
+Fixpoint mwalk (member : bool) (n : node) {struct n} : list (bool * node) :=
+  (member, n) ::
+  match n with
+  | Node _ _ _ _ _ ch =>
+      if is_term n then [] else
+      (fix go (first : bool) (l : list node) {struct l} : list (bool * node) :=
+         match l with
+         | [] => []
+         | c :: l' => mwalk (member_pos n member first) c ++ go false l'
+         end) true ch
+  end.
+
+(* node t (in member position or not) mentions the name x: an identifier terminal, the name of a call
+   - both unless in member position -, the counter of a for block; names compared ignoring case *)
+Definition is_mention (x : str) (e : bool * node) : bool :=
+  let t := snd e in
+  (is_term t && name_tok t && negb (fst e) && ci_eqb (nident t) x)
+  || (is_kind KAstMethodCall t && negb (fst e) && ci_eqb (nident t) x)
+  || (is_kind KAstForBlock t && match attr_tok K_ident t with Some k => ci_eqb (tval k) x | None => false end).
+
+(* some statement of the method mentions x other than as a member name after a dot, ignoring case *)
+Definition mentions (m : node) (x : str) : bool := existsb (is_mention x) (flat_map (mwalk false) (stmts m)).
+
+(* the local declarations of a method: anywhere in its statements *)
+Definition local_decls (m : node) : list node := filter is_lvar (flat_map subnodes (stmts m)).
+
+(* a name declared again (in any letter case) is not a new variable: the variable is the first declaration *)
+Fixpoint distinct_ci (seen : list str) (l : list node) : list node :=
+  match l with
+  | [] => []
+  | d :: l' => if existsb (ci_eqb (nident d)) seen then distinct_ci seen l'
+               else d :: distinct_ci (seen ++ [nident d]) l'
+  end.
+Fixpoint repeated_ci (seen : list str) (l : list node) : list node :=
+  match l with
+  | [] => []
+  | d :: l' => if existsb (ci_eqb (nident d)) seen then d :: repeated_ci seen l'
+               else repeated_ci (seen ++ [nident d]) l'
+  end.
+
+Definition locals (m : node) : list node := distinct_ci [] (local_decls m).
+Definition redeclared (m : node) : list node := repeated_ci [] (local_decls m).
+
+(* one warning per unmentioned local, on the declared name *)
+Definition method_spec (m : node) : list diag :=
+  flat_map (fun d => if mentions m (nident d) then [] else [warn_of (nident d) (ident_range d)]) (locals m).
+
+Definition unused_spec (file : node) : list diag := flat_map method_spec (all_methods file).
+
+(* one error per repeated declaration, on the repeated name *)
+Definition dup_spec (file : node) : list diag := flat_map (fun m => map dup_diag (redeclared m)) (all_methods file).
+
+(* the key function identifies exactly the names that differ in letter case only *)
+Definition key_ci (keyf : str -> str) : Prop := forall a b, keyf a = keyf b <-> upper a = upper b.
+
+Lemma key_ci_upper : key_ci upper.
+Proof. intros a b. tauto. Qed.
+Lemma key_ci_today : key_ci key_today.
+Proof. exact key_ci_upper. Qed.
+
+Lemma key_ci_eqb keyf a b : key_ci keyf -> str_eqb (keyf a) (keyf b) = ci_eqb a b.
+Proof.
+  intro Hk. unfold ci_eqb. destruct (str_eqb (upper a) (upper b)) eqn:E.
+  - apply str_eqb_eq in E. apply Hk in E. rewrite E. apply str_eqb_refl.
+  - apply str_eqb_neq. intro H. apply Hk in H. rewrite H, str_eqb_refl in E. discriminate.
+Qed.
+
+(* ---- the analyser's name list against the specification's enumeration ---- *)
+
+Fixpoint mn_list (n : node) (member first : bool) (l : list node) : list str :=
+  match l with
+  | [] => []
+  | c :: l' => mention_names (child_member n member first) c ++ mn_list n member false l'
+  end.
+
+Fixpoint mw_list (n : node) (member first : bool) (l : list node) : list (bool * node) :=
+  match l with
+  | [] => []
+  | c :: l' => mwalk (member_pos n member first) c ++ mw_list n member false l'
+  end.
+
+Lemma mention_names_eq mb n :
+  mention_names mb n = names_here mb n ++ (if is_term n then [] else mn_list n mb true (nchildren n)).
+Proof.
+  destruct n as [k i r rg a ch]. cbn [mention_names nchildren]. f_equal. unfold is_term.
+  generalize (Node k i r rg a ch). intro q. destruct (is_kind KAstTerminal q); [reflexivity|].
+  generalize true. induction ch as [|c ch IH]; intro first; [reflexivity|]. cbn [mn_list]. rewrite <- IH. reflexivity.
+Qed.
+
+Lemma mwalk_eq mb n :
+  mwalk mb n = (mb, n) :: (if is_term n then [] else mw_list n mb true (nchildren n)).
+Proof.
+  destruct n as [k i r rg a ch]. cbn [mwalk nchildren]. f_equal.
+  generalize (Node k i r rg a ch). intro q. destruct (is_term q); [reflexivity|].
+  generalize true. induction ch as [|c ch IH]; intro first; [reflexivity|]. cbn [mw_list]. rewrite <- IH. reflexivity.
+Qed.
+
+Definition names_of (e : bool * node) : list str := names_here (fst e) (snd e).
+
+Lemma mention_names_mwalk n : forall mb, mention_names mb n = flat_map names_of (mwalk mb n).
+Proof.
+  induction n as [k id r rg a ch IH] using node_ind'. intro mb.
+  rewrite mention_names_eq, mwalk_eq. cbn [flat_map names_of fst snd]. f_equal.
+  destruct (is_term (Node k id r rg a ch)); [reflexivity|]. cbn [nchildren].
+  generalize (Node k id r rg a ch). intro q. generalize true.
+  induction IH as [|c l Hc _ IHl]; intro first; [reflexivity|]. cbn [mn_list mw_list].
+  rewrite flat_map_app, <- member_pos_child, Hc, IHl. reflexivity.
+Qed.
+
+(* a name met at a node has the key of x iff the node mentions x *)
+Lemma hit_names_here keyf x e :
+  key_ci keyf -> existsb (fun nm => str_eqb (keyf nm) (keyf x)) (names_of e) = is_mention x e.
+Proof.
+  intro Hk. destruct e as [mb t]. unfold names_of, names_here, is_mention, is_term, name_tok. cbn [fst snd].
+  assert (Hkind : is_kind KAstTerminal t = true -> is_kind KAstMethodCall t = false /\ is_kind KAstForBlock t = false).
+  { unfold is_kind. destruct (nkind t); cbv [ak_eqb ak_idx N.eqb Pos.eqb]; intro; split; congruence. }
+  destruct (is_kind KAstTerminal t) eqn:Et.
+  - destruct (Hkind eq_refl) as [-> ->]. cbn [andb orb]. rewrite !orb_false_r.
+    destruct mb, (is_string_lit t); cbn [negb andb existsb]; try reflexivity.
+    rewrite !orb_false_r. apply key_ci_eqb. exact Hk.
+  - cbn [andb orb]. rewrite existsb_app.
+    f_equal.
+    + destruct (is_kind KAstMethodCall t), mb; cbn [negb andb existsb]; try reflexivity.
+      rewrite orb_false_r. apply key_ci_eqb. exact Hk.
+    + destruct (is_kind KAstForBlock t); cbn [andb]; [|reflexivity].
+      destruct (attr_tok K_ident t); cbn [existsb]; [|reflexivity]. rewrite orb_false_r. apply key_ci_eqb. exact Hk.
+Qed.
+
+Lemma hit_mwalk keyf x l :
+  key_ci keyf -> hit keyf (flat_map names_of l) (keyf x) = existsb (is_mention x) l.
+Proof.
+  intro Hk. unfold hit. rewrite existsb_flat_map. apply existsb_ext_in. intros e _. apply hit_names_here. exact Hk.
+Qed.
+
+Lemma method_body_kind m b : method_body m = Some b -> is_kind KAstMethodBody b = true.
+Proof. unfold method_body. intro H. apply find_some in H. tauto. Qed.
+
+(* the body node itself is neither a declaration nor a mention: the analyser reads the statements *)
+Lemma body_lvars_decls m : body_lvars m = local_decls m.
+Proof.
+  unfold body_lvars, local_decls, stmts. destruct (method_body m) as [b|] eqn:E; [|reflexivity].
+  destruct (body_kind b (method_body_kind _ _ E)) as (Hl & _).
+  rewrite subnodes_eq. cbn [filter]. rewrite Hl. reflexivity.
+Qed.
+
+Lemma body_names_mwalk m : body_names m = flat_map names_of (flat_map (mwalk false) (stmts m)).
+Proof.
+  unfold body_names, stmts. destruct (method_body m) as [b|] eqn:E; [|reflexivity].
+  destruct (body_kind b (method_body_kind _ _ E)) as (_ & Ht & Hc & Hf & Hb & Ha).
+  rewrite mention_names_mwalk, mwalk_eq. cbn [flat_map]. rewrite Ht.
+  unfold names_of at 1. cbn [fst snd]. unfold names_here. unfold is_term in Ht. rewrite Ht, Hc, Hf. cbn [andb app].
+  assert (Hm : forall first, member_pos b false first = false).
+  { intro first. unfold member_pos, is_dot_op. rewrite Hb, Ha. reflexivity. }
+  generalize true. induction (nchildren b) as [|c l IH]; intro first; [reflexivity|].
+  cbn [mw_list flat_map]. rewrite !flat_map_app, Hm, IH. reflexivity.
+Qed.
+
+Lemma mentions_hit keyf m x : key_ci keyf -> hit keyf (body_names m) (keyf x) = mentions m x.
+Proof. intro Hk. rewrite body_names_mwalk. unfold mentions. apply hit_mwalk. exact Hk. Qed.
+
+Lemma mem_key_ci keyf a seen : key_ci keyf -> mem_str (keyf a) (map keyf seen) = existsb (ci_eqb a) seen.
+Proof.
+  intro Hk. unfold mem_str. rewrite existsb_map. apply existsb_ext_in. intros s _. apply key_ci_eqb. exact Hk.
+Qed.
+
+Lemma first_by_distinct keyf l : key_ci keyf -> forall seen, first_by keyf (map keyf seen) l = distinct_ci seen l.
+Proof.
+  intro Hk. induction l as [|d l IH]; intro seen; [reflexivity|]. cbn [first_by distinct_ci].
+  rewrite (mem_key_ci _ _ _ Hk). destruct (existsb _ seen); [apply IH|].
+  f_equal. rewrite <- IH, map_app. reflexivity.
+Qed.
+
+Lemma later_by_repeated keyf l : key_ci keyf -> forall seen, later_by keyf (map keyf seen) l = repeated_ci seen l.
+Proof.
+  intro Hk. induction l as [|d l IH]; intro seen; [reflexivity|]. cbn [later_by repeated_ci].
+  rewrite (mem_key_ci _ _ _ Hk). destruct (existsb _ seen); [f_equal; apply IH|].
+  rewrite <- IH, map_app. reflexivity.
+Qed.
+
+(* one method: the analyser's report is the "already declared" errors followed by the specified warnings *)
+Theorem method_report_spec keyf m :
+  key_ci keyf -> method_report keyf m = map dup_diag (redeclared m) ++ method_spec m.
+Proof.
+  intro Hk. rewrite method_report_eq. unfold report_of, redeclared, method_spec, locals.
+  rewrite body_lvars_decls.
+  rewrite (first_by_distinct keyf _ Hk []), (later_by_repeated keyf _ Hk []). f_equal.
+  apply flat_map_ext. intro d. rewrite (mentions_hit keyf m _ Hk). reflexivity.
+Qed.
+
+Lemma dup_diags_not_unused l : Forall (fun d => is_unused_diag d = false) (map dup_diag l).
+Proof. induction l; constructor; [reflexivity|assumption]. Qed.
+
+Lemma method_spec_unused m : Forall (fun d => is_unused_diag d = true) (method_spec m).
+Proof.
+  unfold method_spec. induction (locals m) as [|d l IH]; [constructor|]. cbn [flat_map].
+  apply Forall_app. split; [|exact IH]. destruct (mentions m (nident d)); repeat constructor.
+Qed.
+
 Theorem method_exact keyf m :
-  key_ci keyf -> WFmeth keyf m ->
-  filter is_unused_diag (method_report keyf m) = method_spec m.
+  key_ci keyf -> filter is_unused_diag (method_report keyf m) = method_spec m.
 Proof.
-  intros Hk (Hf & Hd & Ho & Hp). unfold method_report. fold (sub_events m).
-  rewrite (unused_of_stretch keyf _ Hf). rewrite (fresh_order keyf _ []) by exact Hd.
-  unfold method_spec, local_decls.
-  apply (order_spec_gen keyf (fun d => mentions m (nident d)) (sub_events m) []); [reflexivity|].
-  intros l1 e l2 HB El.
-  rewrite (mentions_touched keyf m _ Hk Hp). rewrite HB. unfold touched.
-  rewrite existsb_app. cbn [existsb]. fold (touched keyf (keyf (nident (ev_node e))) l1).
-  fold (touched keyf (keyf (nident (ev_node e))) l2).
-  rewrite (is_use_nonterm keyf _ e) by (apply (proj2 (proj2 (kinds_exclusive _)) El)). cbn [orb].
-  destruct (touched keyf _ l1) eqn:E1; [|reflexivity]. rewrite (Ho l1 e l2 HB El E1). reflexivity.
+  intro Hk. rewrite (method_report_spec _ _ Hk), filter_app.
+  rewrite (filter_all_false _ _ (dup_diags_not_unused _)), (filter_all_true _ _ (method_spec_unused m)). reflexivity.
 Qed.
 
-(* ---- the whole file ---- *)
-
-Definition WFm (keyf : str -> str) (file : node) : Prop :=
-  WFtop keyf file /\ forall m, In m (methods file) -> WFmeth keyf m.
-
-Lemma filter_flat_map {A B} (f : B -> bool) (g : A -> list B) l :
-  filter f (flat_map g l) = flat_map (fun a => filter f (g a)) l.
-Proof. induction l as [|a l IH]; [reflexivity|]. cbn [flat_map]. rewrite filter_app, IH. reflexivity. Qed.
-
-Lemma flat_map_ext_in' {A B} (f g : A -> list B) l : (forall a, In a l -> f a = g a) -> flat_map f l = flat_map g l.
+Theorem method_dups_exact keyf m :
+  key_ci keyf -> filter (fun d => negb (is_unused_diag d)) (method_report keyf m) = map dup_diag (redeclared m).
 Proof.
-  induction l as [|a l IH]; intro H; [reflexivity|]. cbn [flat_map].
-  rewrite (H a (or_introl eq_refl)), IH; [reflexivity|]. intros b Hb. apply H. right. exact Hb.
+  intro Hk. rewrite (method_report_spec _ _ Hk), filter_app.
+  rewrite (filter_all_true _ (map dup_diag _)), (filter_all_false _ (method_spec m)); [apply app_nil_r| |].
+  - eapply Forall_impl; [|apply method_spec_unused]. intros d ->. reflexivity.
+  - eapply Forall_impl; [|apply dup_diags_not_unused]. intros d ->. reflexivity.
 Qed.
 
-Theorem unused_exact_eq keyf file :
-  key_ci keyf -> WFm keyf file -> unused_vars keyf file = unused_spec file.
+(* THE statement: for every tree, the warnings are exactly the specified ones, in order *)
+Theorem unused_exact_eq keyf file : key_ci keyf -> unused_vars keyf file = unused_spec file.
 Proof.
-  intros Hk [Ht Hm]. unfold unused_vars, unused_spec. rewrite (report_decomposes _ _ Ht), filter_flat_map.
-  apply flat_map_ext_in'. intros m Hin. apply method_exact; [exact Hk|apply Hm; exact Hin].
+  intro Hk. unfold unused_vars, unused_spec. rewrite report_decomposes, filter_flat_map.
+  apply flat_map_ext. intro m. apply method_exact. exact Hk.
 Qed.
 
-Theorem unused_exact keyf file :
-  key_ci keyf -> WFm keyf file -> Permutation (unused_vars keyf file) (unused_spec file).
-Proof. intros Hk H. rewrite (unused_exact_eq _ _ Hk H). apply Permutation_refl. Qed.
+Theorem unused_exact keyf file : key_ci keyf -> Permutation (unused_vars keyf file) (unused_spec file).
+Proof. intro Hk. rewrite (unused_exact_eq _ _ Hk). apply Permutation_refl. Qed.
+
+Theorem dups_exact_eq keyf file : key_ci keyf -> dup_errors keyf file = dup_spec file.
+Proof.
+  intro Hk. unfold dup_errors, dup_spec. rewrite report_decomposes, filter_flat_map.
+  apply flat_map_ext. intro m. apply method_dups_exact. exact Hk.
+Qed.
+
+(* ---- the declarative reading of `mentions` ---- *)
+
+(* x is mentioned at or below n, n being in member position (mb) or not *)
+Inductive MentionsIn (x : str) : bool -> node -> Prop :=
+| MI_here mb n : is_mention x (mb, n) = true -> MentionsIn x mb n
+| MI_child mb n i c :
+    is_term n = false -> nth_error (nchildren n) i = Some c ->
+    MentionsIn x (member_pos n mb (Nat.eqb i 0)) c -> MentionsIn x mb n.
+
+Lemma mw_list_in n mb l : forall first e,
+  In e (mw_list n mb first l) ->
+  exists i c, nth_error l i = Some c /\ In e (mwalk (member_pos n mb (if Nat.eqb i 0 then first else false)) c).
+Proof.
+  induction l as [|c l IH]; intros first e Hin; [destruct Hin|]. cbn [mw_list] in Hin.
+  apply in_app_or in Hin. destruct Hin as [Hin|Hin].
+  - exists 0%nat, c. split; [reflexivity|exact Hin].
+  - destruct (IH false e Hin) as (i & c' & Hn & Hi). exists (S i), c'. split; [exact Hn|].
+    cbn [Nat.eqb]. destruct (Nat.eqb i 0); exact Hi.
+Qed.
+
+Lemma mw_list_intro n mb l : forall first i c e,
+  nth_error l i = Some c -> In e (mwalk (member_pos n mb (if Nat.eqb i 0 then first else false)) c) ->
+  In e (mw_list n mb first l).
+Proof.
+  induction l as [|c0 l IH]; intros first i c e Hn Hin; [destruct i; discriminate|]. cbn [mw_list].
+  apply in_or_app. destruct i as [|i]; cbn [nth_error Nat.eqb] in *.
+  - inversion Hn; subst. left. exact Hin.
+  - right. apply (IH false i c e Hn). destruct (Nat.eqb i 0); exact Hin.
+Qed.
+
+Lemma mentions_in_mwalk x n : forall mb,
+  existsb (is_mention x) (mwalk mb n) = true <-> MentionsIn x mb n.
+Proof.
+  induction n as [k id r rg a ch IH] using node_ind'. intro mb. set (q := Node k id r rg a ch) in *.
+  rewrite mwalk_eq. cbn [existsb]. split.
+  - intro H. apply orb_true_iff in H. destruct H as [H|H]; [apply MI_here; exact H|].
+    destruct (is_term q) eqn:Et; [discriminate|]. apply existsb_exists in H. destruct H as (e & Hin & He).
+    apply (mw_list_in q mb _ true) in Hin. destruct Hin as (i & c & Hn & Hi).
+    apply (MI_child x mb q i c Et Hn). rewrite Forall_forall in IH.
+    apply (IH c (nth_error_In _ _ Hn)). apply existsb_exists. exists e. split; [|exact He].
+    destruct (Nat.eqb i 0); exact Hi.
+  - intro H. inversion H as [mb' n' Hh|mb' n' i c Et Hn Hc]; subst.
+    + rewrite Hh. reflexivity.
+    + apply orb_true_iff. right. fold q in Et. rewrite Et. rewrite Forall_forall in IH.
+      fold q in Hn. cbn [nchildren q] in Hn.
+      apply (IH c (nth_error_In _ _ Hn)) in Hc. apply existsb_exists in Hc. destruct Hc as (e & Hin & He).
+      apply existsb_exists. exists e. split; [|exact He].
+      apply (mw_list_intro q mb ch true i c e Hn). destruct (Nat.eqb i 0); exact Hin.
+Qed.
+
+(* "some statement of the method mentions x other than as the member name to the right of a dot" *)
+Theorem mentions_iff m x :
+  mentions m x = true <-> exists s, In s (stmts m) /\ MentionsIn x false s.
+Proof.
+  unfold mentions. rewrite existsb_flat_map, existsb_exists. split.
+  - intros (s & Hs & H). exists s. split; [exact Hs|]. apply mentions_in_mwalk. exact H.
+  - intros (s & Hs & H). exists s. split; [exact Hs|]. apply mentions_in_mwalk. exact H.
+Qed.
+
+(* a local is reported iff no statement of its own method mentions it *)
+Theorem reported_iff keyf m d :
+  key_ci keyf -> In d (locals m) ->
+  (In (warn_of (nident d) (ident_range d)) (method_report keyf m) <->
+   ~ exists s, In s (stmts m) /\ MentionsIn (nident d) false s).
+Proof.
+  intros Hk Hd. rewrite <- mentions_iff. rewrite (method_report_spec _ _ Hk), in_app_iff. split.
+  - intros [H|H].
+    + apply in_map_iff in H. destruct H as (n & E & _). discriminate E.
+    + unfold method_spec in H. apply in_flat_map in H. destruct H as (d' & _ & H).
+      destruct (mentions m (nident d')) eqn:E; [destruct H|]. destruct H as [H|[]].
+      unfold warn_of in H. injection H as Hr Hn. intro Hm'. rewrite <- Hn, E in Hm'. discriminate.
+  - intro H. right. unfold method_spec. apply in_flat_map. exists d. split; [exact Hd|].
+    destruct (mentions m (nident d)); [exfalso; apply H; reflexivity|left; reflexivity].
+Qed.
 
 (* ------------------------------------------------------------------------------------------ *)
-(* Part 4a: placement (guard-free): every diagnostic sits on the name token of a local        *)
-(*          declaration of the file, and an "Unused var" warning prints the declared spelling   *)
+(* Part 4: per-method independence, placement, renaming                                        *)
 (* ------------------------------------------------------------------------------------------ *)
 
-Definition diag_from (P : ev -> Prop) (d : diag) : Prop :=
-  exists e, P e /\ e_lvar e = true /\ drange d = ident_range (ev_node e) /\
-            (is_unused_diag d = true -> dkey d = nident (ev_node e) /\ dsev d = SEV_WARNING) /\
-            (is_unused_diag d = false -> dsev d = SEV_ERROR).
-
-Definition entry_from (keyf : str -> str) (P : ev -> Prop) (kv : str * vinfo) : Prop :=
-  exists e, P e /\ e_lvar e = true /\ fst kv = keyf (nident (ev_node e)) /\
-            vrange (snd kv) = ident_range (ev_node e) /\ vname (snd kv) = nident (ev_node e).
-
-Lemma unused_of_from keyf (P : ev -> Prop) c : Forall (entry_from keyf P) c -> Forall (diag_from P) (unused_of c).
+(* a method's report is what the analyser says about the method alone *)
+Lemma analyze_solo keyf m : is_method m = true -> analyze keyf (solo m) = method_report keyf m ++ flat_map (method_report keyf) (filter is_method (flat_map subnodes (nchildren m))).
 Proof.
-  induction 1 as [|kv c (e & He & Hl & Hk & Hr & Hn) _ IH]; [constructor|]. unfold unused_of. cbn [flat_map].
-  apply Forall_app. split; [|exact IH]. destruct (vuses (snd kv) =? 0); [|constructor].
-  constructor; [|constructor]. exists e. repeat split; try assumption; cbn; try discriminate.
+  intro H. rewrite report_decomposes. unfold all_methods, solo. cbn [nchildren flat_map]. rewrite app_nil_r, subnodes_eq.
+  cbn [filter]. rewrite H. reflexivity.
 Qed.
 
-Lemma emit_from keyf (P : ev -> Prop) c e :
-  P e -> Forall (entry_from keyf P) c ->
-  Forall (entry_from keyf P) (fst (emit keyf c e)) /\ Forall (diag_from P) (snd (emit keyf c e)).
+Lemma all_methods_children file :
+  all_methods file = flat_map (fun c => filter is_method (subnodes c)) (nchildren file).
+Proof. unfold all_methods. apply filter_flat_map. Qed.
+
+(* permuting the top-level declarations (the methods among them) permutes the report: no hypothesis *)
+Theorem report_per_method keyf file file' :
+  Permutation (nchildren file) (nchildren file') -> Permutation (analyze keyf file) (analyze keyf file').
 Proof.
-  intros He Hc. unfold emit. pose proof (classify_spec (ev_node e)) as Hcl. destruct (classify (ev_node e)); cbn [fst snd].
-  - split; [constructor|eapply unused_of_from; exact Hc].
-  - destruct (is_string_lit _); [split; [exact Hc|constructor]|].
-    destruct (alookup _ c) as [v|] eqn:E; [|split; [exact Hc|constructor]].
-    destruct (is_left_node _ _); cbn [fst snd]; [|split; [exact Hc|constructor]]. split; [|constructor].
-    destruct (ainsert_present _ (mkV (vuses v + 1) (vrange v) (vname v)) v c E) as (c1 & c2 & -> & _ & ->).
-    apply Forall_app in Hc. destruct Hc as [H1 H2]. inversion H2 as [|? ? (e' & Hp & Hl & Hk & Hr & Hn) H3]; subst.
-    apply Forall_app. split; [exact H1|]. constructor; [|exact H3]. exists e'. repeat split; assumption.
-  - destruct Hcl as (_ & _ & Hl). destruct (alookup _ c) as [v|] eqn:E; cbn [fst snd].
-    + split; [exact Hc|]. constructor; [|constructor]. exists e. repeat split; try assumption; cbn; discriminate.
-    + split; [|constructor]. rewrite (ainsert_absent _ _ _ E). apply Forall_app. split; [exact Hc|].
-      constructor; [|constructor]. exists e. repeat split; assumption.
-  - split; [exact Hc|constructor].
+  intro Hp. rewrite !report_decomposes, !all_methods_children.
+  apply Permutation_flat_map. apply Permutation_flat_map. exact Hp.
 Qed.
 
-Lemma emits_from keyf (P : ev -> Prop) l : forall c,
-  (forall e, In e l -> P e) -> Forall (entry_from keyf P) c ->
-  Forall (entry_from keyf P) (fst (emits keyf c l)) /\ Forall (diag_from P) (snd (emits keyf c l)).
-Proof.
-  induction l as [|e l IH]; intros c HP Hc; cbn [emits fst snd]; [split; [exact Hc|constructor]|].
-  destruct (emit_from keyf P c e (HP e (or_introl eq_refl)) Hc) as [H1 H2].
-  destruct (IH _ (fun e' H => HP e' (or_intror H)) H1) as [H3 H4].
-  split; [exact H3|]. apply Forall_app. split; assumption.
-Qed.
+(* the report depends on the method nodes only: whatever else the two trees contain *)
+Theorem report_methods_only keyf file file' :
+  all_methods file = all_methods file' -> analyze keyf file = analyze keyf file'.
+Proof. intro H. rewrite !report_decomposes, H. reflexivity. Qed.
+
+(* placement: every diagnostic sits on the name token of a local declaration of some method of the
+   file; a warning prints that declaration's spelling and is a WARNING, the other class is an ERROR *)
+Definition diag_on (d : diag) (n : node) : Prop :=
+  is_lvar n = true /\ drange d = ident_range n /\
+  (is_unused_diag d = true -> dkey d = nident n /\ dsev d = SEV_WARNING) /\
+  (is_unused_diag d = false -> dsev d = SEV_ERROR).
 
 Theorem placement keyf file :
-  Forall (diag_from (fun e => In e (events file))) (analyze keyf file).
+  Forall (fun d => exists m n, In m (all_methods file) /\ In n (local_decls m) /\ diag_on d n) (analyze keyf file).
 Proof.
-  rewrite analyze_out. unfold out.
-  destruct (emits_from keyf (fun e => In e (events file)) (events file) [] (fun e H => H) (Forall_nil _)) as [H1 H2].
-  apply Forall_app. split; [exact H2|]. eapply unused_of_from. exact H1.
+  rewrite report_decomposes. apply Forall_forall. intros d Hd. apply in_flat_map in Hd.
+  destruct Hd as (m & Hm & Hd). exists m. rewrite method_report_eq in Hd. unfold report_of in Hd.
+  rewrite body_lvars_decls in Hd. apply in_app_or in Hd. destruct Hd as [Hd|Hd].
+  - apply in_map_iff in Hd. destruct Hd as (n & <- & Hn). apply later_by_in in Hn. exists n.
+    split; [exact Hm|]. split; [exact Hn|]. unfold local_decls in Hn. apply filter_In in Hn.
+    repeat split; try (cbn; discriminate); tauto.
+  - apply in_flat_map in Hd. destruct Hd as (n & Hn & Hd). apply first_by_in in Hn. exists n.
+    split; [exact Hm|]. split; [exact Hn|]. unfold local_decls in Hn. apply filter_In in Hn.
+    destruct (hit keyf _ _); [destruct Hd|]. destruct Hd as [<-|[]].
+    repeat split; try (cbn; discriminate); tauto.
 Qed.
 
-(* ------------------------------------------------------------------------------------------ *)
-(* Part 4b: renaming.  Applying an injective map to every name of the tree maps the keys of    *)
-(*          the warnings and changes nothing else (guard-free).                               *)
-(* ------------------------------------------------------------------------------------------ *)
+(* ---- renaming: applying an injective map to every name of the tree (identifiers and token values)
+        maps the names in the warnings and changes nothing else ---- *)
+
+Definition map_tok (f : str -> str) (t : tok) : tok := mkTok (traw t) (trange t) (tty t) (f (tval t)).
+Definition map_aval (f : str -> str) (a : aval) : aval :=
+  match a with
+  | AT t => AT (map_tok f t)
+  | AL l => AL (map (map_tok f) l)
+  | _ => a
+  end.
 
 Fixpoint map_idents (f : str -> str) (n : node) : node :=
-  match n with Node k id r rg a ch => Node k (f id) r rg a (map (map_idents f) ch) end.
-
-Definition emap (f : str -> str) (e : ev) : ev := (map_idents f (fst e), map_idents f (snd e)).
+  match n with
+  | Node k id r rg a ch => Node k (f id) r rg (map (fun kv => (fst kv, map_aval f (snd kv))) a) (map (map_idents f) ch)
+  end.
 
 Definition dmap (f : str -> str) (d : diag) : diag :=
   mkDiag (dsev d) (dclass d) (drange d) (if is_unused_diag d then f (dkey d) else dkey d).
-
-(* keys through g, recorded names through f *)
-Definition cren (f g : str -> str) (c : cmap) : cmap :=
-  map (fun kv => (g (fst kv), mkV (vuses (snd kv)) (vrange (snd kv)) (f (vname (snd kv))))) c.
 
 Definition injective (f : str -> str) : Prop := forall a b, f a = f b -> a = b.
 
 Lemma mi_kind f n : nkind (map_idents f n) = nkind n. Proof. destruct n; reflexivity. Qed.
 Lemma mi_ident f n : nident (map_idents f n) = f (nident n). Proof. destruct n; reflexivity. Qed.
 Lemma mi_range f n : nrange (map_idents f n) = nrange n. Proof. destruct n; reflexivity. Qed.
-Lemma mi_attrs f n : nattrs (map_idents f n) = nattrs n. Proof. destruct n; reflexivity. Qed.
 Lemma mi_children f n : nchildren (map_idents f n) = map (map_idents f) (nchildren n). Proof. destruct n; reflexivity. Qed.
 
 Lemma mi_is_kind f k n : is_kind k (map_idents f n) = is_kind k n.
 Proof. unfold is_kind. rewrite mi_kind. reflexivity. Qed.
 
-Lemma mi_classify f n : classify (map_idents f n) = classify n.
-Proof. unfold classify, is_method, is_term, is_lvar. rewrite !mi_is_kind. reflexivity. Qed.
+Lemma mi_attr_tok f k n : attr_tok k (map_idents f n) = option_map (map_tok f) (attr_tok k n).
+Proof.
+  destruct n as [kd id r rg a ch]. unfold attr_tok. cbn [map_idents nattrs].
+  induction a as [|[k' v] a IH]; [reflexivity|]. cbn [map attr fst snd].
+  destruct (k =? k'); [|exact IH]. destruct v as [x|x|t|[|t l]]; reflexivity.
+Qed.
 
 Lemma mi_ident_range f n : ident_range (map_idents f n) = ident_range n.
-Proof. unfold ident_range, attr_tok. rewrite mi_attrs, mi_range. reflexivity. Qed.
+Proof. unfold ident_range. rewrite mi_attr_tok, mi_range. destruct (attr_tok K_ident n); reflexivity. Qed.
 
 Lemma mi_is_string_lit f n : is_string_lit (map_idents f n) = is_string_lit n.
-Proof. unfold is_string_lit, attr_tok. rewrite mi_attrs. reflexivity. Qed.
+Proof. unfold is_string_lit. rewrite mi_attr_tok. destruct (attr_tok K_token n); reflexivity. Qed.
 
 Lemma mi_op_is_dot f n : op_is_dot (map_idents f n) = op_is_dot n.
-Proof. unfold op_is_dot, attr_tok. rewrite mi_attrs. reflexivity. Qed.
+Proof. unfold op_is_dot. rewrite mi_attr_tok. destruct (attr_tok K_op n); reflexivity. Qed.
+
+Lemma mi_child_member f n mb first : child_member (map_idents f n) mb first = child_member n mb first.
+Proof. unfold child_member, is_dot_op. rewrite !mi_is_kind, mi_op_is_dot. reflexivity. Qed.
+
+Lemma mi_subnodes f n : subnodes (map_idents f n) = map (map_idents f) (subnodes n).
+Proof.
+  induction n as [k id r rg a ch IH] using node_ind'. rewrite (subnodes_eq (Node k id r rg a ch)), subnodes_eq.
+  cbn [map]. f_equal. rewrite mi_children. cbn [nchildren].
+  induction IH as [|c l Hc _ IHl]; [reflexivity|]. cbn [map flat_map]. rewrite map_app, Hc, IHl. reflexivity.
+Qed.
+
+Lemma mi_names_here f mb n : names_here mb (map_idents f n) = map f (names_here mb n).
+Proof.
+  unfold names_here. rewrite !mi_is_kind, mi_is_string_lit, mi_ident, mi_attr_tok.
+  destruct (is_kind KAstTerminal n); [destruct (negb mb && negb (is_string_lit n)); reflexivity|].
+  rewrite map_app. f_equal.
+  - destruct (is_kind KAstMethodCall n && negb mb); reflexivity.
+  - destruct (is_kind KAstForBlock n); [|reflexivity]. destruct (attr_tok K_ident n); reflexivity.
+Qed.
+
+Lemma mi_mention_names f n : forall mb, mention_names mb (map_idents f n) = map f (mention_names mb n).
+Proof.
+  induction n as [k id r rg a ch IH] using node_ind'. intro mb. set (q := Node k id r rg a ch) in *.
+  rewrite (mention_names_eq mb q), mention_names_eq, map_app, mi_names_here. f_equal.
+  unfold is_term. rewrite mi_is_kind. destruct (is_kind KAstTerminal q); [reflexivity|].
+  rewrite mi_children. cbn [nchildren q]. clearbody q. generalize true.
+  induction IH as [|c l Hc _ IHl]; intro first; [reflexivity|]. cbn [map mn_list].
+  rewrite map_app, mi_child_member, Hc, IHl. reflexivity.
+Qed.
+
+Lemma mi_method_body f m : method_body (map_idents f m) = option_map (map_idents f) (method_body m).
+Proof.
+  unfold method_body. rewrite mi_children. induction (nchildren m) as [|c l IH]; [reflexivity|].
+  cbn [map find]. rewrite mi_is_kind. destruct (is_kind KAstMethodBody c); [reflexivity|exact IH].
+Qed.
+
+Lemma filter_map_comm {A B} (p : B -> bool) (q : A -> bool) (h : A -> B) l :
+  (forall a, p (h a) = q a) -> filter p (map h l) = map h (filter q l).
+Proof.
+  intro H. induction l as [|a l IH]; [reflexivity|]. cbn [map filter]. rewrite H, IH. destruct (q a); reflexivity.
+Qed.
+
+Lemma mi_body_lvars f m : body_lvars (map_idents f m) = map (map_idents f) (body_lvars m).
+Proof.
+  unfold body_lvars. rewrite mi_method_body. destruct (method_body m) as [b|]; [|reflexivity]. cbn [option_map].
+  rewrite mi_subnodes. apply filter_map_comm. intro a. apply mi_is_kind.
+Qed.
+
+Lemma mi_body_names f m : body_names (map_idents f m) = map f (body_names m).
+Proof.
+  unfold body_names. rewrite mi_method_body. destruct (method_body m) as [b|]; [|reflexivity]. apply mi_mention_names.
+Qed.
 
 Lemma str_eqb_inj f a b : injective f -> str_eqb (f a) (f b) = str_eqb a b.
 Proof.
@@ -935,89 +853,63 @@ Proof.
   - apply str_eqb_neq. intro H. apply Hf in H. apply str_eqb_neq in E. contradiction.
 Qed.
 
-Lemma mi_ident_pos_eqb f a b : injective f -> ident_pos_eqb (map_idents f a) (map_idents f b) = ident_pos_eqb a b.
-Proof. intro Hf. unfold ident_pos_eqb. rewrite !mi_ident, !mi_range, (str_eqb_inj _ _ _ Hf). reflexivity. Qed.
+Section Rename.
+  (* f renames the names, g is what f does to their keys *)
+  Context (keyf f g : str -> str).
+  Context (Hg : injective g) (Hfg : forall s, keyf (f s) = g (keyf s)).
 
-Lemma mi_is_left f p n : injective f -> is_left_node (map_idents f p) (map_idents f n) = is_left_node p n.
-Proof.
-  intro Hf. unfold is_left_node. rewrite mi_is_kind, mi_op_is_dot, mi_children.
-  destruct (nchildren p); cbn [map]; [reflexivity|]. rewrite (mi_ident_pos_eqb _ _ _ Hf). reflexivity.
-Qed.
+  Lemma mem_ren a seen : mem_str (keyf (f a)) (map g seen) = mem_str (keyf a) seen.
+  Proof.
+    unfold mem_str. rewrite existsb_map, Hfg. apply existsb_ext_in. intros s _. apply str_eqb_inj. exact Hg.
+  Qed.
 
-Lemma mi_walk_list f q l :
-  Forall (fun n => forall p, walk (map_idents f p) (map_idents f n) = map (emap f) (walk p n)) l ->
-  walk_list (map_idents f q) (map (map_idents f) l) = map (emap f) (walk_list q l).
-Proof.
-  induction 1 as [|c l Hc _ IH]; [reflexivity|]. cbn [map walk_list]. rewrite map_app, Hc, IH. reflexivity.
-Qed.
+  Lemma first_by_ren l : forall seen,
+    first_by keyf (map g seen) (map (map_idents f) l) = map (map_idents f) (first_by keyf seen l).
+  Proof.
+    induction l as [|n l IH]; intro seen; [reflexivity|]. cbn [map first_by]. rewrite mi_ident, mem_ren.
+    destruct (mem_str _ seen); [apply IH|]. cbn [map]. f_equal. rewrite Hfg, <- IH, map_app. reflexivity.
+  Qed.
 
-Lemma mi_walk f n : forall p, walk (map_idents f p) (map_idents f n) = map (emap f) (walk p n).
-Proof.
-  induction n as [k id r rg a ch IH] using node_ind'. intro p.
-  rewrite (walk_eq p), (walk_eq (map_idents f p)). cbn [map]. f_equal.
-  rewrite mi_children. apply mi_walk_list. exact IH.
-Qed.
+  Lemma later_by_ren l : forall seen,
+    later_by keyf (map g seen) (map (map_idents f) l) = map (map_idents f) (later_by keyf seen l).
+  Proof.
+    induction l as [|n l IH]; intro seen; [reflexivity|]. cbn [map later_by]. rewrite mi_ident, mem_ren.
+    destruct (mem_str _ seen); [cbn [map]; f_equal; apply IH|]. rewrite Hfg, <- IH, map_app. reflexivity.
+  Qed.
 
-Lemma mi_events f file : events (map_idents f file) = map (emap f) (events file).
-Proof.
-  unfold events. rewrite mi_children. apply mi_walk_list. apply Forall_forall. intros n _. apply mi_walk.
-Qed.
+  Lemma hit_ren names x : hit keyf (map f names) (keyf (f x)) = hit keyf names (keyf x).
+  Proof.
+    unfold hit. rewrite existsb_map. apply existsb_ext_in. intros s _. rewrite !Hfg. apply str_eqb_inj. exact Hg.
+  Qed.
 
-Definition vren (f : str -> str) (v : vinfo) : vinfo := mkV (vuses v) (vrange v) (f (vname v)).
+  Lemma method_report_rename m :
+    method_report keyf (map_idents f m) = map (dmap f) (method_report keyf m).
+  Proof.
+    rewrite !method_report_eq. unfold report_of. rewrite mi_body_lvars, mi_body_names.
+    change (@nil str) with (map g []) at 1 2. rewrite first_by_ren, later_by_ren. rewrite map_app. f_equal.
+    - rewrite !map_map. apply map_ext. intro n. unfold dup_diag, dmap. cbn. rewrite mi_ident_range. reflexivity.
+    - rewrite flat_map_map. induction (first_by keyf [] (body_lvars m)) as [|n l IH]; [reflexivity|].
+      cbn [flat_map]. rewrite map_app, IH. f_equal. rewrite mi_ident, hit_ren, mi_ident_range.
+      destruct (hit keyf _ _); reflexivity.
+  Qed.
 
-Lemma cren_alookup f g k c : injective g -> alookup (g k) (cren f g c) = option_map (vren f) (alookup k c).
-Proof.
-  intro Hg. induction c as [|[k' v] c IH]; [reflexivity|]. cbn [cren map alookup fst snd].
-  rewrite (str_eqb_inj _ _ _ Hg). destruct (str_eqb k k'); [reflexivity|exact IH].
-Qed.
+  Lemma all_methods_rename file : all_methods (map_idents f file) = map (map_idents f) (all_methods file).
+  Proof.
+    unfold all_methods. rewrite mi_children, flat_map_map.
+    replace (flat_map (fun a => subnodes (map_idents f a)) (nchildren file))
+      with (map (map_idents f) (flat_map subnodes (nchildren file))).
+    - apply filter_map_comm. intro a. unfold is_method. rewrite !mi_is_kind. reflexivity.
+    - induction (nchildren file) as [|c l IH]; [reflexivity|]. cbn [flat_map]. rewrite map_app, IH, mi_subnodes. reflexivity.
+  Qed.
 
-Lemma cren_ainsert f g k v c : injective g -> ainsert (g k) (vren f v) (cren f g c) = cren f g (ainsert k v c).
-Proof.
-  intro Hg. induction c as [|[k' v'] c IH]; [reflexivity|]. cbn [cren map ainsert fst snd].
-  rewrite (str_eqb_inj _ _ _ Hg). destruct (str_eqb k k'); [reflexivity|]. cbn [map fst snd].
-  f_equal. exact IH.
-Qed.
-
-Lemma cren_unused_of f g c : unused_of (cren f g c) = map (dmap f) (unused_of c).
-Proof.
-  unfold unused_of. induction c as [|kv c IH]; [reflexivity|]. cbn [cren map flat_map fst snd vuses].
-  rewrite map_app. f_equal; [|exact IH]. destruct (vuses (snd kv) =? 0); reflexivity.
-Qed.
-
-Lemma emit_rename keyf f g c e :
-  injective f -> injective g -> (forall s, keyf (f s) = g (keyf s)) ->
-  emit keyf (cren f g c) (emap f e) = (cren f g (fst (emit keyf c e)), map (dmap f) (snd (emit keyf c e))).
-Proof.
-  intros Hf Hg Hfg. destruct e as [p n]. unfold emit, emap, ev_node, ev_parent. cbn [fst snd].
-  rewrite mi_classify. destruct (classify n).
-  - cbn [fst snd cren map]. rewrite cren_unused_of. reflexivity.
-  - rewrite mi_is_string_lit. destruct (is_string_lit n); [reflexivity|].
-    rewrite mi_ident, Hfg, (cren_alookup _ _ _ _ Hg). destruct (alookup _ c) as [v|]; [|reflexivity].
-    cbn [option_map]. rewrite (mi_is_left _ _ _ Hf). destruct (is_left_node p n); [|reflexivity].
-    cbn [fst snd map]. rewrite <- (cren_ainsert _ _ _ _ _ Hg). reflexivity.
-  - rewrite mi_ident, Hfg, (cren_alookup _ _ _ _ Hg), mi_ident_range. destruct (alookup _ c); [reflexivity|].
-    cbn [option_map fst snd map]. rewrite <- (cren_ainsert _ _ _ _ _ Hg). reflexivity.
-  - reflexivity.
-Qed.
-
-Lemma emits_rename keyf f g l : forall c,
-  injective f -> injective g -> (forall s, keyf (f s) = g (keyf s)) ->
-  emits keyf (cren f g c) (map (emap f) l) = (cren f g (fst (emits keyf c l)), map (dmap f) (snd (emits keyf c l))).
-Proof.
-  induction l as [|e l IH]; intros c Hf Hg Hfg; [reflexivity|]. cbn [map emits].
-  rewrite (emit_rename keyf f g c e Hf Hg Hfg). cbn [fst snd]. rewrite (IH _ Hf Hg Hfg). cbn [fst snd].
-  rewrite map_app. reflexivity.
-Qed.
-
-(* f renames the names, g is what f does to their keys *)
-Theorem rename_equivariant keyf f g file :
-  injective f -> injective g -> (forall s, keyf (f s) = g (keyf s)) ->
-  analyze keyf (map_idents f file) = map (dmap f) (analyze keyf file).
-Proof.
-  intros Hf Hg Hfg. rewrite !analyze_out, mi_events. unfold out.
-  change (@nil (str * vinfo)) with (cren f g []) at 1 2.
-  rewrite (emits_rename keyf f g _ [] Hf Hg Hfg). cbn [fst snd]. rewrite cren_unused_of, map_app. reflexivity.
-Qed.
+  Theorem rename_equivariant file :
+    analyze keyf (map_idents f file) = map (dmap f) (analyze keyf file).
+  Proof.
+    rewrite !report_decomposes, all_methods_rename, flat_map_map.
+    induction (all_methods file) as [|m l IH]; [reflexivity|]. cbn [flat_map].
+    rewrite map_app, IH, method_report_rename. reflexivity.
+  Qed.
+End Rename.
 
 (* an instance for case-insensitive keys: every name gets the prefix c *)
 Definition prefix_name (c : N) (s : str) : str := c :: s.
@@ -1028,171 +920,40 @@ Proof. intros a b H. inversion H. reflexivity. Qed.
 Theorem rename_prefix_upper c file :
   analyze upper (map_idents (prefix_name c) file) = map (dmap (prefix_name c)) (analyze upper file).
 Proof.
-  apply (rename_equivariant upper (prefix_name c) (prefix_name (upc c)));
-    [apply prefix_injective|apply prefix_injective|reflexivity].
-Qed.
-
-(* the names occurring in a tree *)
-Fixpoint idents (n : node) : list str :=
-  match n with Node _ id _ _ _ ch => id :: flat_map idents ch end.
-
-(* ------------------------------------------------------------------------------------------ *)
-(* Part 5: the guards are decidable; boolean checkers with soundness (used for the concrete   *)
-(*         examples of Properties/C15.v and, extracted, to measure how many generated programs *)
-(*         satisfy the guards)                                                                *)
-(* ------------------------------------------------------------------------------------------ *)
-
-Definition g_flat_b (m : node) : bool := forallb (fun e => negb (e_method e)) (sub_events m).
-
-Fixpoint nodup_b (l : list str) : bool :=
-  match l with [] => true | a :: l' => negb (mem_str a l') && nodup_b l' end.
-
-Definition g_dup_b (keyf : str -> str) (m : node) : bool := nodup_b (decl_keys keyf (sub_events m)).
-
-Fixpoint order_b (keyf : str -> str) (l1 l2 : list ev) : bool :=
-  match l2 with
-  | [] => true
-  | e :: l2' =>
-      (if e_lvar e
-       then implb (touched keyf (keyf (nident (ev_node e))) l1) (touched keyf (keyf (nident (ev_node e))) l2')
-       else true) && order_b keyf (l1 ++ [e]) l2'
-  end.
-
-Definition g_order_b (keyf : str -> str) (m : node) : bool := order_b keyf [] (sub_events m).
-
-Definition pos_b (e : iev) : bool :=
-  let p := fst (fst e) in let i := snd (fst e) in let t := snd e in
-  implb (is_term t && is_kind KAstBinaryOp p && op_is_dot p && negb (Nat.eqb i 0))
-        (match hd_error (nchildren p) with Some l => negb (ident_pos_eqb l t) | None => true end).
-Definition g_pos_b (m : node) : bool := forallb pos_b (sub_ievents m).
-
-Definition wfmeth_b (keyf : str -> str) (m : node) : bool :=
-  g_flat_b m && g_dup_b keyf m && g_order_b keyf m && g_pos_b m.
-
-Definition quiet_b (e : ev) : bool := negb (e_method e) && negb (e_lvar e).
-Definition inert_b (keyf : str -> str) (keys : list str) (e : ev) : bool :=
-  negb (e_method e) && negb (e_lvar e) &&
-  implb (e_term e && name_tok (ev_node e) && mem_str (keyf (nident (ev_node e))) keys) (negb (is_left_node (ev_parent e) (ev_node e))).
-
-Definition wftop_b (keyf : str -> str) (file : node) : bool :=
-  let r := split_methods (nchildren file) in
-  forallb (fun t => forallb quiet_b (walk file t)) (fst r) &&
-  forallb (fun mT => forallb (fun t => forallb (inert_b keyf (decl_keys keyf (walk file (fst mT)))) (walk file t)) (snd mT)) (snd r).
-
-Definition wfm_b (keyf : str -> str) (file : node) : bool :=
-  wftop_b keyf file && forallb (wfmeth_b keyf) (methods file).
-
-Lemma forallb_Forall {A} (f : A -> bool) (P : A -> Prop) l :
-  (forall a, f a = true -> P a) -> forallb f l = true -> Forall P l.
-Proof.
-  intros H Hf. apply Forall_forall. intros a Ha. apply H. rewrite forallb_forall in Hf. apply Hf. exact Ha.
-Qed.
-
-Lemma negb_true b : negb b = true -> b = false.
-Proof. destruct b; [discriminate|reflexivity]. Qed.
-
-Lemma nodup_b_sound l : nodup_b l = true -> NoDup l.
-Proof.
-  induction l as [|a l IH]; intro H; [constructor|]. cbn [nodup_b] in H. apply andb_true_iff in H. destruct H as [H1 H2].
-  constructor; [|apply IH; exact H2]. intro Hin. apply mem_str_in in Hin. rewrite Hin in H1. discriminate.
-Qed.
-
-Lemma order_b_sound keyf l2 : forall l1, order_b keyf l1 l2 = true ->
-  forall a e b, l2 = a ++ e :: b -> e_lvar e = true ->
-  touched keyf (keyf (nident (ev_node e))) (l1 ++ a) = true -> touched keyf (keyf (nident (ev_node e))) b = true.
-Proof.
-  induction l2 as [|x l2 IH]; intros l1 H a e b E El Ht.
-  - destruct a; discriminate.
-  - cbn [order_b] in H. apply andb_true_iff in H. destruct H as [H1 H2]. destruct a as [|y a].
-    + cbn [app] in E. inversion E; subst. rewrite El in H1. rewrite app_nil_r in Ht. rewrite Ht in H1. exact H1.
-    + cbn [app] in E. inversion E; subst. apply (IH (l1 ++ [y]) H2 a e b eq_refl El). rewrite <- app_assoc. exact Ht.
-Qed.
-
-Lemma wfmeth_b_sound keyf m : wfmeth_b keyf m = true -> WFmeth keyf m.
-Proof.
-  unfold wfmeth_b. rewrite !andb_true_iff. intros [[[H1 H2] H3] H6]. repeat split.
-  - eapply forallb_Forall; [|exact H1]. intros e. apply negb_true.
-  - apply nodup_b_sound. exact H2.
-  - intros l1 e l2 E El Ht. apply (order_b_sound keyf _ [] H3 l1 e l2 E El). exact Ht.
-  - intros p i t l Hin Ht Hk Hd Hi Hh. unfold g_pos_b in H6. rewrite forallb_forall in H6. specialize (H6 _ Hin).
-    unfold pos_b in H6. cbn [fst snd] in H6. rewrite Ht, Hk, Hd, Hh in H6.
-    destruct i; [contradiction|]. cbn in H6. apply negb_true. exact H6.
-Qed.
-
-Lemma quiet_b_sound e : quiet_b e = true -> quiet_ev e.
-Proof. unfold quiet_b. rewrite andb_true_iff. intros [H1 H2]. split; apply negb_true; assumption. Qed.
-
-Lemma inert_b_sound keyf keys e : inert_b keyf keys e = true -> inert_ev keyf keys e.
-Proof.
-  unfold inert_b. rewrite !andb_true_iff. intros [[H1 H2] H3]. repeat split; try (apply negb_true; assumption).
-  intros Ht Hs Hin. apply mem_str_in in Hin. unfold name_tok in H3. rewrite Ht, Hs, Hin in H3. apply negb_true. exact H3.
-Qed.
-
-Lemma wftop_b_sound keyf file : wftop_b keyf file = true -> WFtop keyf file.
-Proof.
-  unfold wftop_b, WFtop. rewrite andb_true_iff. intros [H1 H2]. split.
-  - eapply forallb_Forall; [|exact H1]. intros t Ht. eapply forallb_Forall; [|exact Ht]. apply quiet_b_sound.
-  - eapply forallb_Forall; [|exact H2]. intros mT Hm. unfold trailing_inert.
-    eapply forallb_Forall; [|exact Hm]. intros t Ht. eapply forallb_Forall; [|exact Ht]. apply inert_b_sound.
-Qed.
-
-Theorem wfm_b_sound keyf file : wfm_b keyf file = true -> WFm keyf file.
-Proof.
-  unfold wfm_b. rewrite andb_true_iff. intros [H1 H2]. split; [apply wftop_b_sound; exact H1|].
-  intros m Hm. apply wfmeth_b_sound. rewrite forallb_forall in H2. apply H2. exact Hm.
-Qed.
-
-(* which guards the checkers accept: [WFtop; G_flat; G_dup; G_order; G_pos] *)
-Definition guard_flags (keyf : str -> str) (file : node) : list bool :=
-  [ wftop_b keyf file;
-    forallb g_flat_b (methods file);
-    forallb (g_dup_b keyf) (methods file);
-    forallb (g_order_b keyf) (methods file);
-    forallb g_pos_b (methods file) ].
-
-Lemma guard_flags_all keyf file : guard_flags keyf file = [true; true; true; true; true] -> WFm keyf file.
-Proof.
-  unfold guard_flags. intro H. injection H as H0 H1 H2 H3 H6. apply wfm_b_sound. unfold wfm_b. rewrite H0. cbn [andb].
-  apply forallb_forall. intros m Hm. unfold wfmeth_b.
-  rewrite forallb_forall in H1, H2, H3, H6.
-  rewrite (H1 m Hm), (H2 m Hm), (H3 m Hm), (H6 m Hm). reflexivity.
+  apply (rename_equivariant upper (prefix_name c) (prefix_name (upc c))); [apply prefix_injective|reflexivity].
 Qed.
 
 (* ------------------------------------------------------------------------------------------ *)
-(* Part 6: the property read on the source text is stronger than the tree-level specification *)
-(*         in three places, because of how the parser builds the tree:                        *)
-(*         - the name of a call `x(1)` is AstMethodCall.identifier, not a child node;         *)
-(*         - the counter of `for x = 1 to 3` is AstForBlock.counter_token, not a node;        *)
-(*         - in `self.x[1]` the terminal x is the first child of an AstArrayAccess that is    *)
-(*           the right operand of the dot, so x itself is not "to the right of a dot".        *)
-(*         unused_spec_ext counts the first two as mentions and treats the third as a member  *)
-(*         name.  It is used for refutation witnesses only (Properties/C15.v).                *)
+(* Part 5: the shape of parsed trees: method nodes are children of the root                    *)
 (* ------------------------------------------------------------------------------------------ *)
 
-(* (in member position?, node) for every node below n *)
-Fixpoint mwalk (member : bool) (n : node) {struct n} : list (bool * node) :=
-  (member, n) ::
-  match n with
-  | Node _ _ _ _ _ ch =>
-      (fix go (first : bool) (l : list node) {struct l} : list (bool * node) :=
-         match l with
-         | [] => []
-         | c :: l' =>
-             mwalk ((is_kind KAstBinaryOp n && op_is_dot n && negb first)
-                    || (is_kind KAstArrayAccess n && first && member)) c ++ go false l'
-         end) true ch
-  end.
+Definition methods (file : node) : list node := filter is_method (nchildren file).
 
-Definition is_mention_ext (x : str) (e : bool * node) : bool :=
-  let t := snd e in
-  (is_term t && name_tok t && negb (fst e) && ci_eqb (nident t) x)
-  || (is_kind KAstMethodCall t && negb (fst e) && ci_eqb (nident t) x)
-  || (is_kind KAstForBlock t && match attr_tok K_ident t with Some k => ci_eqb (tval k) x | None => false end).
+(* no method node strictly below a child of the root *)
+Definition top_flat (file : node) : Prop :=
+  Forall (fun c => Forall (fun n => is_method n = false) (flat_map subnodes (nchildren c))) (nchildren file).
 
-Definition mentions_ext (m : node) (x : str) : bool :=
-  existsb (is_mention_ext x) (flat_map (mwalk false) (nchildren m)).
+Definition top_flat_b (file : node) : bool :=
+  forallb (fun c => forallb (fun n => negb (is_method n)) (flat_map subnodes (nchildren c))) (nchildren file).
 
-Definition unused_spec_ext (file : node) : list diag :=
-  flat_map (fun m => flat_map (fun d => if mentions_ext m (nident d) then []
-                                         else [warn_of (nident d) (ident_range d)]) (local_decls m))
-           (methods file).
+Lemma top_flat_b_sound file : top_flat_b file = true -> top_flat file.
+Proof.
+  unfold top_flat_b, top_flat. intro H. apply Forall_forall. intros c Hc. apply Forall_forall. intros n Hn.
+  rewrite forallb_forall in H. specialize (H c Hc). rewrite forallb_forall in H. specialize (H n Hn).
+  destruct (is_method n); [discriminate|reflexivity].
+Qed.
+
+Theorem all_methods_top file : top_flat file -> all_methods file = methods file.
+Proof.
+  unfold top_flat, methods. rewrite all_methods_children. induction 1 as [|c l Hc _ IH]; [reflexivity|].
+  cbn [flat_map filter]. rewrite IH, subnodes_eq. cbn [filter].
+  rewrite (filter_all_false _ _ Hc). destruct (is_method c); reflexivity.
+Qed.
+
+(* on such a tree a method's own report is the whole report of the method alone *)
+Theorem analyze_solo_flat keyf m :
+  is_method m = true -> Forall (fun n => is_method n = false) (flat_map subnodes (nchildren m)) ->
+  analyze keyf (solo m) = method_report keyf m.
+Proof.
+  intros H Hf. rewrite (analyze_solo _ _ H), (filter_all_false _ _ Hf). apply app_nil_r.
+Qed.
